@@ -1,7 +1,2983 @@
-//! (stub — to be filled in) suite `malformed`.
-use crate::out::Out;
+//! Suite `malformed` (C17): invalid or extreme inputs produce errors, not panics.
+//!
+//! Lines written (one `case` per generated unit):
+//! * `#mal <stream> <case> => <outcome>` — oracle-only transcript lines (the model driver answers
+//!   `-`): API call sequences — variable creation (int / ints / ints_2d / intset / bool / bools /
+//!   float / floats / new_var with reversed, equal, huge and i32-extreme bounds, empty value sets,
+//!   spans that exceed the memory budget), every posting method of `Model`, of the runtime API
+//!   (`m.new`, `m.c(..)`, `post_and/or`, `postall`) and of `constraints::functions`, with boundary
+//!   arguments (empty lists, length mismatches, zero divisors, out-of-range indices, wrong table
+//!   arity, duplicated variables, negative counts, coefficients near i32::MAX), then one solving
+//!   entry point (solve / enumerate / enumerate_with_stats / minimize / maximize / *_and_iterate /
+//!   validate, objective = variable or a view of it) under a configuration (default, timeout,
+//!   memory limit, no memory limit, unlimited, float precision).  Every single call runs under
+//!   `guarded` (catch_unwind); a panic is minimised by delta debugging on the step list.
+//!   Streams (`A.` / `B.` prefixes of the stats): `A` = *in-range* arguments (every literal
+//!   |v| ≤ 10^6): any panic / hang / abort is a C17 failure, and the documented invalid inputs must
+//!   not lead to a returned solution; `B` = *extreme* arguments (near `i32::MIN/MAX`, huge floats):
+//!   overflow panics of the test profile get the tag `i32-overflow`.  Stream `B` cases and every case
+//!   whose float magnitudes can defeat the step size run in a child process (address-space limit
+//!   1.5 GB, 1.5 s) because the known defects there do not unwind: they hang or exhaust memory.
+//! * `mal.v <scenario> <call>` — the validation decision table: one documented invalid input (or its
+//!   valid neighbour) per line; the outcome class of the entry point is compared with the Lean model
+//!   `Selen.Safety.outcome`.
+//! * `mal.ss <op>`, `mal.view <lo> <hi> <op> <m> <view>`, `mal.lin <rel> <k> <nc> c* <nv> (lo hi)*` —
+//!   direct calls on `SparseSet`, the integer views and the integer linear propagators with extreme
+//!   values; "panic / result" is compared with the panic-site model (`Selen.Safety.SSS/VS/LS`).
+//!
+//! Tags (`tag_panic`, `tag_hang`, `tag_abort`, `v_tag`, `direct_tag`) are decided from the panic
+//! message kind + source file of the panic (never the line number) together with the syntactic shape
+//! of the case:
+//! `empty-domain-view-panic` (`SparseSet::min/max` debug assertion reached with an empty-domain
+//! variable: `int(hi,lo)`, `intset([])`, reversed float bounds + float->int conversion),
+//! `table-row-arity-panic`, `lin-reif-length-unchecked`, `memory-limit-dummy-varid-panic` (the budget
+//! rejects the first variable, the dummy `VarId(0)` is dereferenced), `i32-overflow`,
+//! `float-split-no-progress` (step below ULP: the search descends for ever, limits unchecked),
+//! `huge-domain-allocation` (a sparse set of > 1.5 GB is allocated), `accepted-<invalid input>`.
+use crate::out::{guarded, Out};
+use crate::rng::Rng;
+use selen::prelude as sp;
+use selen::prelude::{Constraint, ConstraintVecExt, ExprBuilder, Model, ModelExt, Solution, SolverError, Val, VarId, VarIdExt};
+use selen::variables::domain::sparse_set::SparseSet;
+use std::sync::Mutex;
 
-pub fn suite(_out: &mut Out, _seed: u64, _count: u64, _args: &[String]) {}
+const STREAM: u64 = 0x0C17_BAD1_4B07_5EED;
+const IN_RANGE: i64 = 1_000_000;
 
-/// replay of one protocol line of this suite inside the current case
-pub fn replay_line(_out: &mut Out, _line: &str) {}
+// ------------------------------------------------------------------------------------------------
+// panic capture
+// ------------------------------------------------------------------------------------------------
+static LAST_PANIC: Mutex<Option<(String, String)>> = Mutex::new(None);
+/// child processes report which step they are in (the parent reads it when the child dies)
+static CHILD_PROGRESS: std::sync::atomic::AtomicBool = std::sync::atomic::AtomicBool::new(false);
+
+fn progress(what: &str) {
+    if CHILD_PROGRESS.load(std::sync::atomic::Ordering::Relaxed) {
+        use std::io::Write;
+        println!("P\t{what}");
+        let _ = std::io::stdout().flush();
+    }
+}
+
+fn install_hook() {
+    std::panic::set_hook(Box::new(|info| {
+        let file = info.location().map(|l| l.file().to_string()).unwrap_or_default();
+        let msg = if let Some(s) = info.payload().downcast_ref::<&str>() {
+            s.to_string()
+        } else if let Some(s) = info.payload().downcast_ref::<String>() {
+            s.clone()
+        } else {
+            "?".to_string()
+        };
+        let line = info.location().map(|l| l.line()).unwrap_or(0);
+        if let Ok(mut g) = LAST_PANIC.lock() {
+            *g = Some((format!("{file}:{line}"), msg));
+        }
+    }));
+}
+
+fn remove_hook() {
+    std::panic::set_hook(Box::new(|_| {}));
+}
+
+fn take_panic() -> (String, String) {
+    LAST_PANIC.lock().ok().and_then(|mut g| g.take()).unwrap_or_default()
+}
+
+/// `src/…` relative path of a panic location, line number dropped (robust against edits)
+fn loc_file(loc: &str) -> String {
+    let f = loc.rsplit_once(':').map(|p| p.0).unwrap_or(loc);
+    match f.find("src/") {
+        Some(i) => f[i..].to_string(),
+        None => f.to_string(),
+    }
+}
+
+// ------------------------------------------------------------------------------------------------
+// case description
+// ------------------------------------------------------------------------------------------------
+#[derive(Clone, Copy, Debug, PartialEq)]
+pub enum A {
+    V(usize),
+    K(i32),
+    F(f64),
+}
+
+impl A {
+    fn show(&self) -> String {
+        match self {
+            A::V(i) => format!("v{i}"),
+            A::K(k) => format!("{k}"),
+            A::F(f) => format!("{f:?}f"),
+        }
+    }
+}
+
+#[derive(Clone, Debug, PartialEq)]
+pub enum E {
+    V(usize),
+    K(i32),
+    F(f64),
+    B(u8, Box<E>, Box<E>),
+}
+
+impl E {
+    fn show(&self) -> String {
+        match self {
+            E::V(i) => format!("v{i}"),
+            E::K(k) => format!("{k}"),
+            E::F(f) => format!("{f:?}f"),
+            E::B(op, a, b) => format!("({} {} {})", a.show(), ["+", "-", "*", "/", "%"][*op as usize % 5], b.show()),
+        }
+    }
+    fn ints(&self, out: &mut Vec<i64>) {
+        match self {
+            E::K(k) => out.push(*k as i64),
+            E::B(_, a, b) => {
+                a.ints(out);
+                b.ints(out);
+            }
+            _ => {}
+        }
+    }
+}
+
+#[derive(Clone, Debug, PartialEq)]
+pub enum S {
+    // ---- variable creation
+    Int(i32, i32),
+    Ints(usize, i32, i32),
+    Ints2d(usize, usize, i32, i32),
+    IntSet(Vec<i32>),
+    Bool,
+    Bools(usize),
+    Float(f64, f64),
+    Floats(usize, f64, f64),
+    NewVar(A, A),
+    // ---- result-variable functions
+    Bin { op: u8, x: A, y: A, route: u8 },
+    Abs { x: A, route: u8 },
+    MinMax { is_max: bool, vs: Vec<usize>, route: u8 },
+    Sum { vs: Vec<usize>, route: u8 },
+    BoolN { is_or: bool, vs: Vec<usize>, route: u8 },
+    Not { x: usize, route: u8 },
+    Xor { x: usize, y: usize, route: u8 },
+    Implies { x: usize, y: usize, route: u8 },
+    Clause { pos: Vec<usize>, neg: Vec<usize> },
+    Conv { kind: u8, a: usize, b: usize, route: u8 },
+    // ---- globals
+    AllDiff { vs: Vec<usize>, route: u8 },
+    AllEq { vs: Vec<usize>, route: u8 },
+    Element { arr: Vec<usize>, idx: usize, val: usize, route: u8 },
+    Element2d { rows: Vec<Vec<usize>>, ri: usize, ci: usize, val: usize },
+    Element3d { cube: Vec<Vec<Vec<usize>>>, di: usize, ri: usize, ci: usize, val: usize },
+    Table { vs: Vec<usize>, rows: Vec<Vec<A>>, route: u8 },
+    Count { vs: Vec<usize>, target: A, cnt: usize, route: u8 },
+    Between(usize, usize, usize),
+    Betw(usize, i32, i32),
+    AtMostV(usize, i32),
+    AtLeastV(usize, i32),
+    Card { kind: u8, vs: Vec<usize>, val: i32, n: i32 },
+    Gcc { vs: Vec<usize>, values: Vec<i32>, counts: Vec<usize>, route: u8 },
+    Lin { rel: u8, cs: Vec<i32>, vs: Vec<usize>, k: i32, reif: Option<usize>, route: u8 },
+    LinF { rel: u8, cs: Vec<f64>, vs: Vec<usize>, k: f64, reif: Option<usize>, route: u8 },
+    Reif { op: u8, x: usize, y: usize, b: usize, route: u8 },
+    Cumulative { starts: Vec<usize>, durs: Vec<i32>, demands: Vec<i32>, cap: i32 },
+    // ---- fluent / runtime API
+    Fluent { l: E, op: u8, r: E, wrap: u8, route: u8 },
+}
+
+fn show_us(v: &[usize]) -> String {
+    format!("[{}]", v.iter().map(|i| format!("v{i}")).collect::<Vec<_>>().join(","))
+}
+fn show_is(v: &[i32]) -> String {
+    format!("{:?}", v).replace(' ', "")
+}
+fn show_fs(v: &[f64]) -> String {
+    format!("{:?}", v).replace(' ', "")
+}
+const BINS: [&str; 5] = ["add", "sub", "mul", "div", "modulo"];
+const CMPS: [&str; 6] = ["eq", "ne", "lt", "le", "gt", "ge"];
+const RELS: [&str; 3] = ["eq", "le", "ne"];
+
+impl S {
+    fn show(&self) -> String {
+        match self {
+            S::Int(a, b) => format!("int({a},{b})"),
+            S::Ints(n, a, b) => format!("ints({n},{a},{b})"),
+            S::Ints2d(r, c, a, b) => format!("ints_2d({r},{c},{a},{b})"),
+            S::IntSet(v) => format!("intset({})", show_is(v)),
+            S::Bool => "bool()".into(),
+            S::Bools(n) => format!("bools({n})"),
+            S::Float(a, b) => format!("float({a:?},{b:?})"),
+            S::Floats(n, a, b) => format!("floats({n},{a:?},{b:?})"),
+            S::NewVar(a, b) => format!("new_var({},{})", a.show(), b.show()),
+            S::Bin { op, x, y, route } => format!("{}{}({},{})", if *route == 1 { "fn::" } else { "" }, BINS[*op as usize % 5], x.show(), y.show()),
+            S::Abs { x, route } => format!("{}abs({})", if *route == 1 { "fn::" } else { "" }, x.show()),
+            S::MinMax { is_max, vs, route } => {
+                let n = if *is_max { "max" } else { "min" };
+                match route {
+                    1 => format!("fn::{n}({})", show_us(vs)),
+                    2 => format!("array_int_{n}imum({})", show_us(vs)),
+                    3 => format!("array_float_{n}imum({})", show_us(vs)),
+                    _ => format!("{n}({})", show_us(vs)),
+                }
+            }
+            S::Sum { vs, route } => format!("{}({})", ["sum", "fn::sum", "sum_iter"][*route as usize % 3], show_us(vs)),
+            S::BoolN { is_or, vs, route } => format!("{}{}({})", if *route == 1 { "fn::" } else { "bool_" }, if *is_or { "or" } else { "and" }, show_us(vs)),
+            S::Not { x, route } => format!("{}(v{x})", if *route == 1 { "fn::not" } else { "bool_not" }),
+            S::Xor { x, y, route } => format!("{}(v{x},v{y})", if *route == 1 { "fn::xor" } else { "bool_xor" }),
+            S::Implies { x, y, route } => format!("{}implies(v{x},v{y})", if *route == 1 { "fn::" } else { "" }),
+            S::Clause { pos, neg } => format!("bool_clause({},{})", show_us(pos), show_us(neg)),
+            S::Conv { kind, a, b, route } => {
+                let n = ["int2float", "float2int_floor", "float2int_ceil", "float2int_round", "bool2int"][*kind as usize % 5];
+                if *route == 1 || *kind == 4 { format!("fn::{n}(v{a})") } else { format!("{n}(v{a},v{b})") }
+            }
+            S::AllDiff { vs, route } => format!("{}alldiff({})", ["", "fn::", "ext::"][*route as usize % 3], show_us(vs)),
+            S::AllEq { vs, route } => format!("{}alleq({})", ["", "fn::", "ext::"][*route as usize % 3], show_us(vs)),
+            S::Element { arr, idx, val, route } => match route {
+                1 => format!("elem({},v{idx},v{val})", show_us(arr)),
+                2 => format!("array_int_element(v{idx},{},v{val})", show_us(arr)),
+                3 => format!("array_float_element(v{idx},{},v{val})", show_us(arr)),
+                4 => format!("fn::element({},v{idx})", show_us(arr)),
+                _ => format!("element({},v{idx},v{val})", show_us(arr)),
+            },
+            S::Element2d { rows, ri, ci, val } => format!("element_2d({:?},v{ri},v{ci},v{val})", rows).replace(' ', ""),
+            S::Element3d { cube, di, ri, ci, val } => format!("element_3d({:?},v{di},v{ri},v{ci},v{val})", cube).replace(' ', ""),
+            S::Table { vs, rows, route } => {
+                let r: Vec<String> = rows.iter().map(|r| format!("[{}]", r.iter().map(|a| a.show()).collect::<Vec<_>>().join(","))).collect();
+                format!("{}({},[{}])", ["table", "fn::table", "table_2d", "table_3d"][*route as usize % 4], show_us(vs), r.join(","))
+            }
+            S::Count { vs, target, cnt, route } => format!("{}count({},{},v{cnt})", if *route == 1 { "ext::" } else { "" }, show_us(vs), target.show()),
+            S::Between(l, m, u) => format!("between(v{l},v{m},v{u})"),
+            S::Betw(v, a, b) => format!("betw(v{v},{a},{b})"),
+            S::AtMostV(v, a) => format!("atmost(v{v},{a})"),
+            S::AtLeastV(v, a) => format!("atleast(v{v},{a})"),
+            S::Card { kind, vs, val, n } => format!("{}({},{val},{n})", ["at_least", "at_most", "exactly"][*kind as usize % 3], show_us(vs)),
+            S::Gcc { vs, values, counts, route } => format!("{}gcc({},{},{})", ["", "fn::", "ext::"][*route as usize % 3], show_us(vs), show_is(values), show_us(counts)),
+            S::Lin { rel, cs, vs, k, reif, route } => format!(
+                "{}lin_{}{}({},{},{k}{})",
+                ["", "fn::", "bool_"][*route as usize % 3],
+                RELS[*rel as usize % 3],
+                if reif.is_some() { "_reif" } else { "" },
+                show_is(cs),
+                show_us(vs),
+                reif.map(|b| format!(",v{b}")).unwrap_or_default()
+            ),
+            S::LinF { rel, cs, vs, k, reif, route } => format!(
+                "{}lin_{}{}({},{},{k:?}f{})",
+                ["", "fn::"][*route as usize % 2],
+                RELS[*rel as usize % 3],
+                if reif.is_some() { "_reif" } else { "" },
+                show_fs(cs),
+                show_us(vs),
+                reif.map(|b| format!(",v{b}")).unwrap_or_default()
+            ),
+            S::Reif { op, x, y, b, route } => format!("{}{}_reif(v{x},v{y},v{b})", if *route == 1 { "fn::" } else { "" }, CMPS[*op as usize % 6]),
+            S::Cumulative { starts, durs, demands, cap } => format!("fn::cumulative({},{},{},{cap})", show_us(starts), show_is(durs), show_is(demands)),
+            S::Fluent { l, op, r, wrap, route } => format!(
+                "{}({}{} {} {})",
+                ["new", "c-chain", "fn::cmp", "post_and", "post_or", "postall", "new-fnexpr"][*route as usize % 7],
+                ["", "not ", "and-self ", "or-self "][*wrap as usize % 4],
+                l.show(),
+                CMPS[*op as usize % 6],
+                r.show()
+            ),
+        }
+    }
+
+    /// every integer literal of the step (for the in-range / extreme classification)
+    fn ints(&self) -> Vec<i64> {
+        let mut o: Vec<i64> = vec![];
+        let a = |x: &A, o: &mut Vec<i64>| match x {
+            A::K(k) => o.push(*k as i64),
+            A::F(f) if f.is_finite() => o.push(f.abs().min(4e18) as i64),
+            A::F(_) => o.push(i64::MAX),
+            _ => {}
+        };
+        let f = |x: f64, o: &mut Vec<i64>| if x.is_finite() { o.push(x.abs().min(4e18) as i64) } else { o.push(i64::MAX) };
+        match self {
+            S::Int(x, y) | S::Ints(_, x, y) | S::Ints2d(_, _, x, y) => {
+                o.push(*x as i64);
+                o.push(*y as i64)
+            }
+            S::IntSet(v) => o.extend(v.iter().map(|x| *x as i64)),
+            S::Float(x, y) | S::Floats(_, x, y) => {
+                f(*x, &mut o);
+                f(*y, &mut o)
+            }
+            S::NewVar(x, y) | S::Bin { x, y, .. } => {
+                a(x, &mut o);
+                a(y, &mut o)
+            }
+            S::Abs { x, .. } => a(x, &mut o),
+            S::Table { rows, .. } => rows.iter().flatten().for_each(|x| a(x, &mut o)),
+            S::Count { target, .. } => a(target, &mut o),
+            S::Betw(_, x, y) => {
+                o.push(*x as i64);
+                o.push(*y as i64)
+            }
+            S::AtMostV(_, x) | S::AtLeastV(_, x) => o.push(*x as i64),
+            S::Card { val, n, .. } => {
+                o.push(*val as i64);
+                o.push(*n as i64)
+            }
+            S::Gcc { values, .. } => o.extend(values.iter().map(|x| *x as i64)),
+            S::Lin { cs, k, .. } => {
+                o.extend(cs.iter().map(|x| *x as i64));
+                o.push(*k as i64)
+            }
+            S::LinF { cs, k, .. } => {
+                cs.iter().for_each(|x| f(*x, &mut o));
+                f(*k, &mut o)
+            }
+            S::Cumulative { durs, demands, cap, .. } => {
+                o.extend(durs.iter().map(|x| *x as i64));
+                o.extend(demands.iter().map(|x| *x as i64));
+                o.push(*cap as i64)
+            }
+            S::Fluent { l, r, .. } => {
+                l.ints(&mut o);
+                r.ints(&mut o)
+            }
+            _ => {}
+        }
+        o
+    }
+    fn is_decl(&self) -> bool {
+        matches!(self, S::Int(..) | S::Ints(..) | S::Ints2d(..) | S::IntSet(..) | S::Bool | S::Bools(..) | S::Float(..) | S::Floats(..) | S::NewVar(..))
+    }
+}
+
+#[derive(Clone, Copy, Debug, PartialEq)]
+pub enum Obj {
+    V(usize),
+    Opp(usize),
+    Plus(usize, i32),
+    Times(usize, i32),
+    Next(usize),
+    Prev(usize),
+    K(i32),
+}
+
+impl Obj {
+    fn show(&self) -> String {
+        match self {
+            Obj::V(i) => format!("v{i}"),
+            Obj::Opp(i) => format!("v{i}.opposite()"),
+            Obj::Plus(i, k) => format!("v{i}.plus({k})"),
+            Obj::Times(i, k) => format!("v{i}.times({k})"),
+            Obj::Next(i) => format!("v{i}.next()"),
+            Obj::Prev(i) => format!("v{i}.prev()"),
+            Obj::K(k) => format!("const {k}"),
+        }
+    }
+}
+
+#[derive(Clone, Copy, Debug, PartialEq)]
+pub enum Call {
+    Solve,
+    Enumerate,
+    EnumStats,
+    Minimize(Obj),
+    Maximize(Obj),
+    MinIter(Obj),
+    MaxIter(Obj),
+    Validate,
+}
+
+impl Call {
+    fn show(&self) -> String {
+        match self {
+            Call::Solve => "solve".into(),
+            Call::Enumerate => "enumerate".into(),
+            Call::EnumStats => "enumerate_with_stats".into(),
+            Call::Minimize(o) => format!("minimize({})", o.show()),
+            Call::Maximize(o) => format!("maximize({})", o.show()),
+            Call::MinIter(o) => format!("minimize_and_iterate({})", o.show()),
+            Call::MaxIter(o) => format!("maximize_and_iterate({})", o.show()),
+            Call::Validate => "validate".into(),
+        }
+    }
+    fn ints(&self) -> Vec<i64> {
+        match self {
+            Call::Minimize(o) | Call::Maximize(o) | Call::MinIter(o) | Call::MaxIter(o) => match o {
+                Obj::Plus(_, k) | Obj::Times(_, k) | Obj::K(k) => vec![*k as i64],
+                _ => vec![],
+            },
+            _ => vec![],
+        }
+    }
+}
+
+#[derive(Clone, Copy, Debug, PartialEq)]
+pub struct Cfg {
+    /// 0 default, 1 `Model::with_config`, 2 `Model::with_float_precision`
+    pub ctor: u8,
+    pub timeout_ms: Option<u64>,
+    /// `Some(0)` = `without_memory_limit`
+    pub mem_mb: Option<u64>,
+    pub precision: Option<i32>,
+    pub unlimited: bool,
+}
+
+impl Cfg {
+    fn show(&self) -> String {
+        format!(
+            "cfg(timeout={},mem={},prec={}{})",
+            self.timeout_ms.map(|t| t.to_string()).unwrap_or("-".into()),
+            match self.mem_mb {
+                None => "default".into(),
+                Some(0) => "none".into(),
+                Some(m) => m.to_string(),
+            },
+            self.precision.map(|t| t.to_string()).unwrap_or("-".into()),
+            if self.unlimited { ",unlimited" } else { "" }
+        )
+    }
+    fn build(&self) -> Model {
+        if self.ctor == 2 {
+            return Model::with_float_precision(self.precision.unwrap_or(6));
+        }
+        let mut c = if self.unlimited { sp::config::SolverConfig::unlimited() } else { sp::config::SolverConfig::default() };
+        match self.timeout_ms {
+            Some(t) => c = c.with_timeout_ms(t),
+            None => c = c.without_timeout(),
+        }
+        match self.mem_mb {
+            Some(0) => c = c.without_memory_limit(),
+            Some(m) => c = c.with_max_memory_mb(m),
+            None => {}
+        }
+        if let Some(p) = self.precision {
+            c = c.with_float_precision(p);
+        }
+        Model::with_config(c)
+    }
+}
+
+#[derive(Clone, Debug)]
+pub struct Case {
+    pub cfg: Cfg,
+    pub steps: Vec<S>,
+    pub call: Call,
+}
+
+impl Case {
+    fn show(&self) -> String {
+        format!("{} ; {} ; {}", self.cfg.show(), self.steps.iter().map(|s| s.show()).collect::<Vec<_>>().join(" ; "), self.call.show())
+    }
+    fn extreme(&self) -> bool {
+        self.steps.iter().flat_map(|s| s.ints()).chain(self.call.ints()).any(|v| v.abs() > IN_RANGE)
+    }
+}
+
+// ------------------------------------------------------------------------------------------------
+// execution
+// ------------------------------------------------------------------------------------------------
+/// what one guarded call did
+#[derive(Clone, Debug, PartialEq)]
+pub enum R {
+    Ok,
+    /// posting call returned `Err(name)`
+    Err(String),
+    Panic { file: String, loc: String, msg: String },
+    /// the step could not be executed (not enough variables of the needed kind)
+    Skipped,
+}
+
+#[derive(Clone, Debug)]
+pub enum Res {
+    Sol(Vec<Option<XV>>),
+    Many(usize, Vec<Vec<Option<XV>>>),
+    Err(String),
+    Panic { file: String, loc: String, msg: String },
+    Valid(bool),
+}
+
+#[derive(Clone, Copy, Debug, PartialEq)]
+pub enum XV {
+    I(i64),
+    F(f64),
+}
+
+fn err_name(e: &SolverError) -> &'static str {
+    match e {
+        SolverError::NoSolution { .. } => "NoSolution",
+        SolverError::Timeout { .. } => "Timeout",
+        SolverError::MemoryLimit { .. } => "MemoryLimit",
+        SolverError::InvalidConstraint { .. } => "InvalidConstraint",
+        SolverError::ConflictingConstraints { .. } => "ConflictingConstraints",
+        SolverError::InvalidDomain { .. } => "InvalidDomain",
+        SolverError::InvalidVariable { .. } => "InvalidVariable",
+        SolverError::InternalError { .. } => "InternalError",
+        SolverError::InvalidInput { .. } => "InvalidInput",
+    }
+}
+
+struct Built {
+    m: Model,
+    pool: Vec<VarId>,
+}
+
+fn pv(pool: &[VarId], i: usize) -> Option<VarId> {
+    if pool.is_empty() { None } else { Some(pool[i % pool.len()]) }
+}
+fn pvs(pool: &[VarId], v: &[usize]) -> Option<Vec<VarId>> {
+    if pool.is_empty() && !v.is_empty() { None } else { Some(v.iter().map(|i| pool[*i % pool.len()]).collect()) }
+}
+
+fn bex(e: &E, pool: &[VarId], fs: bool) -> Option<ExprBuilder> {
+    Some(match e {
+        E::V(i) => ExprBuilder::from(pv(pool, *i)?),
+        E::K(c) => if fs { ExprBuilder::from(sp::int(*c)) } else { ExprBuilder::from(*c) },
+        E::F(c) => if fs { ExprBuilder::from(sp::float(*c)) } else { ExprBuilder::from(*c) },
+        E::B(op, a, b) => {
+            let x = bex(a, pool, fs)?;
+            let y = bex(b, pool, fs)?;
+            if fs {
+                match op % 5 {
+                    0 => sp::add(x, y),
+                    1 => sp::sub(x, y),
+                    2 => sp::mul(x, y),
+                    3 => sp::div(x, y),
+                    _ => x.modulo(y),
+                }
+            } else {
+                match op % 5 {
+                    0 => x.add(y),
+                    1 => x.sub(y),
+                    2 => x.mul(y),
+                    3 => x.div(y),
+                    _ => x.modulo(y),
+                }
+            }
+        }
+    })
+}
+
+fn cmp_of(l: ExprBuilder, op: u8, r: ExprBuilder) -> Constraint {
+    match op % 6 {
+        0 => l.eq(r),
+        1 => l.ne(r),
+        2 => l.lt(r),
+        3 => l.le(r),
+        4 => l.gt(r),
+        _ => l.ge(r),
+    }
+}
+
+fn aval(a: &A) -> Val {
+    match a {
+        A::K(k) => Val::ValI(*k),
+        A::F(f) => Val::ValF(*f),
+        A::V(_) => Val::ValI(0),
+    }
+}
+
+/// run one step on the model; `None` = not executable with the current pool
+fn run_step(b: &mut Built, s: &S) -> Option<Result<(), String>> {
+    let m = &mut b.m;
+    let pool = &mut b.pool;
+    let e = |r: Result<VarId, SolverError>, pool: &mut Vec<VarId>| -> Result<(), String> {
+        match r {
+            Ok(v) => {
+                pool.push(v);
+                Ok(())
+            }
+            Err(e) => Err(err_name(&e).to_string()),
+        }
+    };
+    match s {
+        S::Int(a, c) => pool.push(m.int(*a, *c)),
+        S::Ints(n, a, c) => pool.extend(m.ints(*n, *a, *c)),
+        S::Ints2d(r, c, a, d) => pool.extend(m.ints_2d(*r, *c, *a, *d).into_iter().flatten()),
+        S::IntSet(v) => pool.push(m.intset(v.clone())),
+        S::Bool => pool.push(m.bool()),
+        S::Bools(n) => pool.extend(m.bools(*n)),
+        S::Float(a, c) => pool.push(m.float(*a, *c)),
+        S::Floats(n, a, c) => pool.extend(m.floats(*n, *a, *c)),
+        S::NewVar(a, c) => pool.push(m.new_var(aval(a), aval(c))),
+        S::Bin { op, x, y, route } => {
+            let k = *op % 5;
+            macro_rules! go {
+                ($x:expr, $y:expr) => {
+                    match k {
+                        0 => m.add($x, $y),
+                        1 => m.sub($x, $y),
+                        2 => m.mul($x, $y),
+                        3 => m.div($x, $y),
+                        _ => m.modulo($x, $y),
+                    }
+                };
+            }
+            let r = match (x, y) {
+                (A::V(x), A::V(y)) => {
+                    let (x, y) = (pv(pool, *x)?, pv(pool, *y)?);
+                    if k == 4 && *route == 1 { sp::modulo(m, x, y) } else { go!(x, y) }
+                }
+                (A::V(x), y) => {
+                    let x = pv(pool, *x)?;
+                    go!(x, aval(y))
+                }
+                (x, A::V(y)) => {
+                    let y = pv(pool, *y)?;
+                    go!(aval(x), y)
+                }
+                (x, y) => go!(aval(x), aval(y)),
+            };
+            pool.push(r);
+        }
+        S::Abs { x, route } => {
+            let r = match x {
+                A::V(x) => {
+                    let x = pv(pool, *x)?;
+                    if *route == 1 { sp::abs(m, x) } else { m.abs(x) }
+                }
+                k => m.abs(aval(k)),
+            };
+            pool.push(r);
+        }
+        S::MinMax { is_max, vs, route } => {
+            let v = pvs(pool, vs)?;
+            let r = match (*is_max, route % 4) {
+                (false, 0) => m.min(&v),
+                (false, 1) => sp::min(m, &v),
+                (false, 2) => m.array_int_minimum(&v),
+                (false, _) => m.array_float_minimum(&v),
+                (true, 0) => m.max(&v),
+                (true, 1) => sp::max(m, &v),
+                (true, 2) => m.array_int_maximum(&v),
+                (true, _) => m.array_float_maximum(&v),
+            };
+            return Some(e(r, pool));
+        }
+        S::Sum { vs, route } => {
+            let v = pvs(pool, vs)?;
+            let r = match route % 3 {
+                0 => m.sum(&v),
+                1 => sp::sum(m, &v),
+                _ => m.sum_iter(v.iter().copied()),
+            };
+            pool.push(r);
+        }
+        S::BoolN { is_or, vs, route } => {
+            let v = pvs(pool, vs)?;
+            let r = match (*is_or, *route == 1 && v.len() == 2) {
+                (false, true) => sp::and(m, v[0], v[1]),
+                (false, false) => m.bool_and(&v),
+                (true, true) => sp::or(m, v[0], v[1]),
+                (true, false) => m.bool_or(&v),
+            };
+            pool.push(r);
+        }
+        S::Not { x, route } => {
+            let x = pv(pool, *x)?;
+            let r = if *route == 1 { sp::not(m, x) } else { m.bool_not(x) };
+            pool.push(r);
+        }
+        S::Xor { x, y, route } => {
+            let (x, y) = (pv(pool, *x)?, pv(pool, *y)?);
+            let r = if *route == 1 { sp::xor(m, x, y) } else { m.bool_xor(x, y) };
+            pool.push(r);
+        }
+        S::Implies { x, y, route } => {
+            let (x, y) = (pv(pool, *x)?, pv(pool, *y)?);
+            if *route == 1 { sp::implies(m, x, y) } else { m.implies(x, y) }
+        }
+        S::Clause { pos, neg } => {
+            let (p, n) = (pvs(pool, pos)?, pvs(pool, neg)?);
+            m.bool_clause(&p, &n);
+        }
+        S::Conv { kind, a, b, route } => {
+            let (x, y) = (pv(pool, *a)?, pv(pool, *b)?);
+            match (kind % 5, *route == 1) {
+                (0, false) => m.int2float(x, y),
+                (1, false) => m.float2int_floor(x, y),
+                (2, false) => m.float2int_ceil(x, y),
+                (3, false) => m.float2int_round(x, y),
+                (0, true) => pool.push(sp::int2float(m, x)),
+                (1, true) => pool.push(sp::floor(m, x)),
+                (2, true) => pool.push(sp::ceil(m, x)),
+                (3, true) => pool.push(sp::round(m, x)),
+                _ => pool.push(sp::bool2int(m, x)),
+            }
+        }
+        S::AllDiff { vs, route } => {
+            let v = pvs(pool, vs)?;
+            match route % 3 {
+                0 => {
+                    Model::alldiff(m, &v);
+                }
+                1 => sp::alldiff(m, &v),
+                _ => {
+                    ModelExt::alldiff(m, &v);
+                }
+            }
+        }
+        S::AllEq { vs, route } => {
+            let v = pvs(pool, vs)?;
+            match route % 3 {
+                0 => {
+                    Model::alleq(m, &v);
+                }
+                1 => sp::alleq(m, &v),
+                _ => {
+                    ModelExt::alleq(m, &v);
+                }
+            }
+        }
+        S::Element { arr, idx, val, route } => {
+            let a = pvs(pool, arr)?;
+            let (i, v) = (pv(pool, *idx)?, pv(pool, *val)?);
+            match route % 5 {
+                0 => {
+                    m.element(&a, i, v);
+                }
+                1 => {
+                    m.elem(&a, i, v);
+                }
+                2 => m.array_int_element(i, &a, v),
+                3 => m.array_float_element(i, &a, v),
+                _ => pool.push(sp::element(m, &a, i)),
+            }
+        }
+        S::Element2d { rows, ri, ci, val } => {
+            let mut mat = vec![];
+            for r in rows {
+                mat.push(pvs(pool, r)?);
+            }
+            let (r, c, v) = (pv(pool, *ri)?, pv(pool, *ci)?, pv(pool, *val)?);
+            m.element_2d(&mat, r, c, v);
+        }
+        S::Element3d { cube, di, ri, ci, val } => {
+            let mut cu = vec![];
+            for mat in cube {
+                let mut mm = vec![];
+                for r in mat {
+                    mm.push(pvs(pool, r)?);
+                }
+                cu.push(mm);
+            }
+            let (d, r, c, v) = (pv(pool, *di)?, pv(pool, *ri)?, pv(pool, *ci)?, pv(pool, *val)?);
+            m.element_3d(&cu, d, r, c, v);
+        }
+        S::Table { vs, rows, route } => {
+            let v = pvs(pool, vs)?;
+            let t: Vec<Vec<Val>> = rows.iter().map(|r| r.iter().map(aval).collect()).collect();
+            match route % 4 {
+                0 => {
+                    m.table(&v, t);
+                }
+                1 => {
+                    sp::table(m, &v, &t);
+                }
+                2 => {
+                    m.table_2d(&[v.clone(), v], t);
+                }
+                _ => {
+                    m.table_3d(&[vec![v.clone()], vec![v]], t);
+                }
+            }
+        }
+        S::Count { vs, target, cnt, route } => {
+            let v = pvs(pool, vs)?;
+            let c = pv(pool, *cnt)?;
+            match (target, *route == 1) {
+                (A::K(k), true) => {
+                    ModelExt::count(m, &v, *k, c);
+                }
+                (A::V(t), _) => {
+                    let t = pv(pool, *t)?;
+                    Model::count(m, &v, t, c);
+                }
+                (k, _) => {
+                    Model::count(m, &v, aval(k), c);
+                }
+            }
+        }
+        S::Between(l, mm, u) => {
+            let (l, x, u) = (pv(pool, *l)?, pv(pool, *mm)?, pv(pool, *u)?);
+            m.between(l, x, u);
+        }
+        S::Betw(v, a, c) => {
+            let v = pv(pool, *v)?;
+            m.betw(v, *a, *c);
+        }
+        S::AtMostV(v, a) => {
+            let v = pv(pool, *v)?;
+            m.atmost(v, *a);
+        }
+        S::AtLeastV(v, a) => {
+            let v = pv(pool, *v)?;
+            m.atleast(v, *a);
+        }
+        S::Card { kind, vs, val, n } => {
+            let v = pvs(pool, vs)?;
+            match kind % 3 {
+                0 => m.at_least(&v, *val, *n),
+                1 => m.at_most(&v, *val, *n),
+                _ => m.exactly(&v, *val, *n),
+            };
+        }
+        S::Gcc { vs, values, counts, route } => {
+            let (v, c) = (pvs(pool, vs)?, pvs(pool, counts)?);
+            match route % 3 {
+                0 => {
+                    Model::gcc(m, &v, values, &c);
+                }
+                1 => {
+                    sp::gcc(m, &v, values, &c);
+                }
+                _ => {
+                    ModelExt::gcc(m, &v, values, &c);
+                }
+            }
+        }
+        S::Lin { rel, cs, vs, k, reif, route } => {
+            let v = pvs(pool, vs)?;
+            let r = match reif {
+                Some(r) => Some(pv(pool, *r)?),
+                None => None,
+            };
+            let (cs, k) = (&cs[..], *k);
+            match (rel % 3, r, route % 3) {
+                (0, None, 0) => m.lin_eq(cs, &v, k),
+                (1, None, 0) => m.lin_le(cs, &v, k),
+                (_, None, 0) => m.lin_ne(cs, &v, k),
+                (0, Some(r), 0) => m.lin_eq_reif(cs, &v, k, r),
+                (1, Some(r), 0) => m.lin_le_reif(cs, &v, k, r),
+                (_, Some(r), 0) => m.lin_ne_reif(cs, &v, k, r),
+                (0, None, 1) => sp::lin_eq(m, cs, &v, k),
+                (1, None, 1) => sp::lin_le(m, cs, &v, k),
+                (_, None, 1) => sp::lin_ne(m, cs, &v, k),
+                (0, Some(r), 1) => sp::lin_eq_reif(m, cs, &v, k, r),
+                (1, Some(r), 1) => sp::lin_le_reif(m, cs, &v, k, r),
+                (_, Some(r), 1) => sp::lin_ne_reif(m, cs, &v, k, r),
+                (0, None, _) => m.bool_lin_eq(cs, &v, k),
+                (1, None, _) => m.bool_lin_le(cs, &v, k),
+                (_, None, _) => m.bool_lin_ne(cs, &v, k),
+                (0, Some(r), _) => m.bool_lin_eq_reif(cs, &v, k, r),
+                (1, Some(r), _) => m.bool_lin_le_reif(cs, &v, k, r),
+                (_, Some(r), _) => m.bool_lin_ne_reif(cs, &v, k, r),
+            }
+        }
+        S::LinF { rel, cs, vs, k, reif, route } => {
+            let v = pvs(pool, vs)?;
+            let r = match reif {
+                Some(r) => Some(pv(pool, *r)?),
+                None => None,
+            };
+            let (cs, k) = (&cs[..], *k);
+            match (rel % 3, r, route % 2) {
+                (0, None, 0) => m.lin_eq(cs, &v, k),
+                (1, None, 0) => m.lin_le(cs, &v, k),
+                (_, None, 0) => m.lin_ne(cs, &v, k),
+                (0, Some(r), 0) => m.lin_eq_reif(cs, &v, k, r),
+                (1, Some(r), 0) => m.lin_le_reif(cs, &v, k, r),
+                (_, Some(r), 0) => m.lin_ne_reif(cs, &v, k, r),
+                (0, None, _) => sp::lin_eq(m, cs, &v, k),
+                (1, None, _) => sp::lin_le(m, cs, &v, k),
+                (_, None, _) => sp::lin_ne(m, cs, &v, k),
+                (0, Some(r), _) => sp::lin_eq_reif(m, cs, &v, k, r),
+                (1, Some(r), _) => sp::lin_le_reif(m, cs, &v, k, r),
+                (_, Some(r), _) => sp::lin_ne_reif(m, cs, &v, k, r),
+            }
+        }
+        S::Reif { op, x, y, b: r, route } => {
+            let (x, y, r) = (pv(pool, *x)?, pv(pool, *y)?, pv(pool, *r)?);
+            match (op % 6, *route == 1) {
+                (0, false) => m.eq_reif(x, y, r),
+                (1, false) => m.ne_reif(x, y, r),
+                (2, false) => m.lt_reif(x, y, r),
+                (3, false) => m.le_reif(x, y, r),
+                (4, false) => m.gt_reif(x, y, r),
+                (_, false) => m.ge_reif(x, y, r),
+                (0, true) => sp::eq_reif(m, x, y, r),
+                (1, true) => sp::ne_reif(m, x, y, r),
+                (2, true) => sp::lt_reif(m, x, y, r),
+                (3, true) => sp::le_reif(m, x, y, r),
+                (4, true) => sp::gt_reif(m, x, y, r),
+                (_, true) => sp::ge_reif(m, x, y, r),
+            }
+        }
+        S::Cumulative { starts, durs, demands, cap } => {
+            let s = pvs(pool, starts)?;
+            sp::cumulative(m, &s, durs, demands, *cap);
+        }
+        S::Fluent { l, op, r, wrap, route } => {
+            let fs = *route % 7 == 6;
+            let mk = |pool: &[VarId]| -> Option<Constraint> {
+                let c = cmp_of(bex(l, pool, fs)?, *op, bex(r, pool, fs)?);
+                Some(match wrap % 4 {
+                    1 => c.not(),
+                    2 => {
+                        let d = cmp_of(bex(l, pool, fs)?, *op, bex(r, pool, fs)?);
+                        c.and(d)
+                    }
+                    3 => {
+                        let d = cmp_of(bex(r, pool, fs)?, *op, bex(l, pool, fs)?);
+                        c.or(d)
+                    }
+                    _ => c,
+                })
+            };
+            match route % 7 {
+                1 => {
+                    // builder chain `m.c(x).add(..).<cmp>(rhs)`: only for a variable-rooted left side
+                    let (root, ops): (usize, Vec<(u8, &E)>) = {
+                        fn chain(e: &E) -> Option<(usize, Vec<(u8, &E)>)> {
+                            match e {
+                                E::V(i) => Some((*i, vec![])),
+                                E::B(op, a, b) if *op % 5 != 4 => {
+                                    let (v, mut ops) = chain(a)?;
+                                    ops.push((*op % 5, &**b));
+                                    Some((v, ops))
+                                }
+                                _ => None,
+                            }
+                        }
+                        match chain(l) {
+                            Some(c) => c,
+                            None => {
+                                let c = mk(pool)?;
+                                m.new(c);
+                                return Some(Ok(()));
+                            }
+                        }
+                    };
+                    let x = pv(pool, root)?;
+                    let rb = bex(r, pool, false)?;
+                    let mut ys = vec![];
+                    for (o, e) in ops {
+                        ys.push((o, bex(e, pool, false)?));
+                    }
+                    let mut bld = m.c(x);
+                    for (o, y) in ys {
+                        bld = match o {
+                            0 => bld.add(y),
+                            1 => bld.sub(y),
+                            2 => bld.mul(y),
+                            _ => bld.div(y),
+                        };
+                    }
+                    match op % 6 {
+                        0 => bld.eq(rb),
+                        1 => bld.ne(rb),
+                        2 => bld.lt(rb),
+                        3 => bld.le(rb),
+                        4 => bld.gt(rb),
+                        _ => bld.ge(rb),
+                    };
+                }
+                2 => {
+                    let (lb, rb) = (bex(l, pool, false)?, bex(r, pool, false)?);
+                    match op % 6 {
+                        0 => sp::eq(m, lb, rb),
+                        1 => sp::ne(m, lb, rb),
+                        2 => sp::lt(m, lb, rb),
+                        3 => sp::le(m, lb, rb),
+                        4 => sp::gt(m, lb, rb),
+                        _ => sp::ge(m, lb, rb),
+                    }
+                }
+                3 => {
+                    let c = mk(pool)?;
+                    let d = mk(pool)?;
+                    m.post_and(vec![c, d]);
+                }
+                4 => {
+                    let c = mk(pool)?;
+                    let d = mk(pool)?;
+                    m.post_or(vec![c, d]);
+                }
+                5 => {
+                    let c = mk(pool)?;
+                    if *wrap % 2 == 0 {
+                        m.postall(vec![c]);
+                    } else {
+                        ConstraintVecExt::postall(vec![c], m);
+                    }
+                }
+                _ => {
+                    let c = mk(pool)?;
+                    m.new(c);
+                }
+            }
+        }
+    }
+    Some(Ok(()))
+}
+
+const CAP: usize = 40;
+
+fn xv(v: Val) -> XV {
+    match v {
+        Val::ValI(i) => XV::I(i as i64),
+        Val::ValF(f) => XV::F(f),
+    }
+}
+
+fn extract(s: &Solution, pool: &[VarId]) -> Vec<Option<XV>> {
+    pool.iter().map(|id| guarded(|| s[*id]).map(xv)).collect()
+}
+
+struct ObjK<'a> {
+    m: Model,
+    call: Call,
+    pool: &'a [VarId],
+}
+
+fn one(r: Result<Solution, SolverError>, pool: &[VarId]) -> Res {
+    match r {
+        Ok(s) => Res::Sol(extract(&s, pool)),
+        Err(e) => Res::Err(err_name(&e).to_string()),
+    }
+}
+
+impl<'a> ObjK<'a> {
+    fn go<V: sp::View>(self, v: V) -> Res {
+        match self.call {
+            Call::Minimize(_) => one(self.m.minimize(v), self.pool),
+            Call::Maximize(_) => one(self.m.maximize(v), self.pool),
+            Call::MinIter(_) => {
+                let v: Vec<_> = self.m.minimize_and_iterate(v).take(CAP).map(|s| extract(&s, self.pool)).collect();
+                Res::Many(v.len(), v)
+            }
+            _ => {
+                let v: Vec<_> = self.m.maximize_and_iterate(v).take(CAP).map(|s| extract(&s, self.pool)).collect();
+                Res::Many(v.len(), v)
+            }
+        }
+    }
+}
+
+fn run_call(m: Model, pool: &[VarId], call: Call) -> Res {
+    use selen::variables::views::ViewExt;
+    match call {
+        Call::Solve => one(m.solve(), pool),
+        Call::Enumerate => {
+            let v: Vec<_> = m.enumerate().take(CAP).map(|s| extract(&s, pool)).collect();
+            Res::Many(v.len(), v)
+        }
+        Call::EnumStats => {
+            // collects every solution: only generated for small models
+            let (v, _st) = m.enumerate_with_stats();
+            let n = v.len();
+            Res::Many(n, v.iter().take(CAP).map(|s| extract(s, pool)).collect())
+        }
+        Call::Validate => Res::Valid(m.validate().is_ok()),
+        Call::Minimize(o) | Call::Maximize(o) | Call::MinIter(o) | Call::MaxIter(o) => {
+            let k = ObjK { m, call, pool };
+            let var = |i: usize| if pool.is_empty() { None } else { Some(pool[i % pool.len()]) };
+            match o {
+                Obj::K(c) => k.go(Val::ValI(c)),
+                Obj::V(i) => match var(i) {
+                    Some(x) => k.go(x),
+                    None => k.go(Val::ValI(0)),
+                },
+                Obj::Opp(i) => match var(i) {
+                    Some(x) => k.go(x.opposite()),
+                    None => k.go(Val::ValI(0)),
+                },
+                Obj::Plus(i, c) => match var(i) {
+                    Some(x) => k.go(x.plus(Val::ValI(c))),
+                    None => k.go(Val::ValI(0)),
+                },
+                Obj::Times(i, c) => match var(i) {
+                    Some(x) => k.go(x.times(Val::ValI(c))),
+                    None => k.go(Val::ValI(0)),
+                },
+                Obj::Next(i) => match var(i) {
+                    Some(x) => k.go(x.next()),
+                    None => k.go(Val::ValI(0)),
+                },
+                Obj::Prev(i) => match var(i) {
+                    Some(x) => k.go(x.prev()),
+                    None => k.go(Val::ValI(0)),
+                },
+            }
+        }
+    }
+}
+
+pub struct Run {
+    pub steps: Vec<R>,
+    pub call: Option<Res>,
+}
+
+/// execute a case: every step and the final call under its own `catch_unwind`; a panic in a
+/// posting step ends the case (the model may be half-updated)
+pub fn execute(case: &Case) -> Run {
+    let mut b = match guarded(|| case.cfg.build()) {
+        Some(m) => Built { m, pool: vec![] },
+        None => {
+            let (loc, msg) = take_panic();
+            return Run { steps: vec![R::Panic { file: loc_file(&loc), loc, msg }], call: None };
+        }
+    };
+    let mut rs = vec![];
+    for (si, s) in case.steps.iter().enumerate() {
+        progress(&format!("step {si} {}", s.show()));
+        let r = guarded(|| run_step(&mut b, s));
+        match r {
+            None => {
+                let (loc, msg) = take_panic();
+                rs.push(R::Panic { file: loc_file(&loc), loc, msg });
+                return Run { steps: rs, call: None };
+            }
+            Some(None) => rs.push(R::Skipped),
+            Some(Some(Ok(()))) => rs.push(R::Ok),
+            Some(Some(Err(e))) => rs.push(R::Err(e)),
+        }
+    }
+    let Built { m, pool } = b;
+    let call = case.call;
+    progress(&format!("call {}", call.show()));
+    let r = guarded(|| run_call(m, &pool, call));
+    let res = match r {
+        Some(r) => r,
+        None => {
+            let (loc, msg) = take_panic();
+            Res::Panic { file: loc_file(&loc), loc, msg }
+        }
+    };
+    Run { steps: rs, call: Some(res) }
+}
+
+fn first_panic(run: &Run) -> Option<(usize, String, String, String)> {
+    for (i, r) in run.steps.iter().enumerate() {
+        if let R::Panic { file, loc, msg } = r {
+            return Some((i, file.clone(), loc.clone(), msg.clone()));
+        }
+    }
+    if let Some(Res::Panic { file, loc, msg }) = &run.call {
+        return Some((run.steps.len(), file.clone(), loc.clone(), msg.clone()));
+    }
+    None
+}
+
+// ------------------------------------------------------------------------------------------------
+// minimisation (delta debugging on the step list, keeping the same panic site)
+// ------------------------------------------------------------------------------------------------
+fn same_site(a: &(usize, String, String, String), b: &(usize, String, String, String)) -> bool {
+    a.1 == b.1 && msg_kind(&a.3) == msg_kind(&b.3)
+}
+
+fn minimise(case: &Case, site: &(usize, String, String, String)) -> Case {
+    let mut cur = case.clone();
+    let mut budget = 60;
+    // a posting-step panic does not need the solving call
+    if site.0 < cur.steps.len() {
+        cur.steps.truncate(site.0 + 1);
+        cur.call = Call::Validate;
+    }
+    loop {
+        let mut changed = false;
+        let mut i = 0;
+        while i < cur.steps.len() && budget > 0 {
+            let mut t = cur.clone();
+            t.steps.remove(i);
+            budget -= 1;
+            let r = execute(&t);
+            match first_panic(&r) {
+                Some(s2) if same_site(site, &s2) => {
+                    cur = t;
+                    changed = true;
+                }
+                _ => i += 1,
+            }
+        }
+        if !changed || budget == 0 {
+            break;
+        }
+    }
+    // simpler configuration (never drop a budget that keeps a large span from being allocated)
+    if budget > 0 && cur.steps.iter().all(|s| alloc_span(s) <= MAX_ALLOC_SPAN) {
+        let mut t = cur.clone();
+        t.cfg = Cfg { ctor: 0, timeout_ms: Some(300), mem_mb: None, precision: None, unlimited: false };
+        if let Some(s2) = first_panic(&execute(&t)) {
+            if same_site(site, &s2) {
+                cur = t;
+            }
+        }
+    }
+    cur
+}
+
+// ------------------------------------------------------------------------------------------------
+// tags
+// ------------------------------------------------------------------------------------------------
+fn msg_kind(msg: &str) -> &'static str {
+    if msg.contains("with overflow") {
+        "overflow"
+    } else if msg.contains("index out of bounds") || msg.contains("out of range for slice") {
+        "index"
+    } else if msg.contains("assertion") {
+        "assert"
+    } else if msg.contains("divide by zero") || msg.contains("remainder with a divisor of zero") {
+        "divzero"
+    } else if msg.contains("unwrap()") || msg.contains("expect") {
+        "unwrap"
+    } else if msg.contains("capacity overflow") {
+        "capacity"
+    } else {
+        "other"
+    }
+}
+
+/// does the case declare a variable whose domain is empty by construction?
+fn has_empty_decl(case: &Case) -> bool {
+    // reversed float bounds count when a float->int conversion derives an integer variable from them
+    let conv = case.steps.iter().any(|s| matches!(s, S::Conv { route: 1, .. }));
+    case.steps.iter().any(|s| match s {
+        S::Int(a, b) => a > b,
+        S::IntSet(v) => v.is_empty(),
+        S::Float(a, b) => conv && a > b,
+        _ => false,
+    })
+}
+
+/// the first variable of the model is rejected by the memory budget: `new_var_unchecked` hands out
+/// the dummy `VarId(0)` although the model has no variable
+fn first_var_rejected(case: &Case) -> bool {
+    if case.cfg.ctor == 1 && (case.cfg.mem_mb == Some(0) || (case.cfg.unlimited && case.cfg.mem_mb.is_none())) {
+        return false;
+    }
+    // `Model::with_float_precision` / `Model::default()` keep the default budget of 2048 MB
+    let limit = if case.cfg.ctor == 1 { case.cfg.mem_mb.unwrap_or(2048) } else { 2048 };
+    // the first step that really creates a variable
+    let creates = |s: &S| match s {
+        S::Ints(n, ..) | S::Bools(n) | S::Floats(n, ..) => *n > 0,
+        S::Ints2d(r, c, ..) => r * c > 0,
+        _ => s.is_decl(),
+    };
+    let bounds: Option<(i32, i32)> = match case.steps.iter().find(|s| creates(s)) {
+        Some(S::Int(a, b)) if a <= b => Some((*a, *b)),
+        // these swap reversed bounds
+        Some(S::Ints(_, a, b)) | Some(S::Ints2d(_, _, a, b)) | Some(S::NewVar(A::K(a), A::K(b))) => Some((*a.min(b), *a.max(b))),
+        _ => None,
+    };
+    match bounds {
+        Some((a, b)) if a != i32::MIN && b != i32::MAX => {
+            let d = b as i64 - a as i64 + 1;
+            if d > i32::MAX as i64 {
+                return true; // `checked_sub` / `checked_add` overflow: the estimate is u64::MAX
+            }
+            let d = d as u64;
+            let est = if d > 1000 { 144 + d } else { 144 + d * 8 };
+            est > limit * 1024 * 1024
+        }
+        _ => false,
+    }
+}
+
+fn has_bad_table_row(case: &Case) -> bool {
+    case.steps.iter().any(|s| matches!(s, S::Table { vs, rows, .. } if rows.iter().any(|r| r.len() != vs.len())))
+}
+
+fn has_reif_lin_mismatch(case: &Case) -> bool {
+    case.steps.iter().any(|s| match s {
+        S::Lin { cs, vs, reif: Some(_), .. } => cs.len() != vs.len(),
+        S::LinF { cs, vs, reif: Some(_), .. } => cs.len() != vs.len(),
+        _ => false,
+    })
+}
+
+/// narrow matcher for a panic: (message kind, source file, syntactic shape of the case)
+pub fn tag_panic(case: &Case, file: &str, msg: &str) -> String {
+    let kind = msg_kind(msg);
+    let extreme = case.extreme();
+    if kind == "assert" && file.ends_with("domain/sparse_set.rs") && msg.contains("is_empty") && has_empty_decl(case) {
+        return "empty-domain-view-panic".into();
+    }
+    if msg.contains("same arity") && file.ends_with("props/table.rs") && has_bad_table_row(case) {
+        return "table-row-arity-panic".into();
+    }
+    if kind == "index" && file.ends_with("props/linear.rs") && has_reif_lin_mismatch(case) {
+        return "lin-reif-length-unchecked".into();
+    }
+    if kind == "index" && (file.ends_with("variables/views.rs") || file.ends_with("variables/core.rs")) && first_var_rejected(case) {
+        return "memory-limit-dummy-varid-panic".into();
+    }
+    if kind == "overflow" && extreme {
+        return "i32-overflow".into();
+    }
+    "-".into()
+}
+
+// ------------------------------------------------------------------------------------------------
+// generators
+// ------------------------------------------------------------------------------------------------
+struct Gen<'a> {
+    r: &'a mut Rng,
+    extreme: bool,
+    /// number of variables created so far (lower bound; result variables add more)
+    n: usize,
+    big: usize,
+}
+
+const EXT: [i32; 18] = [
+    i32::MIN,
+    i32::MIN + 1,
+    i32::MIN + 2,
+    i32::MAX,
+    i32::MAX - 1,
+    i32::MAX - 2,
+    1 << 30,
+    -(1 << 30),
+    (1 << 30) + 1,
+    2_000_000_000,
+    -2_000_000_000,
+    46341,
+    -46341,
+    65536,
+    1_000_001,
+    -1_000_001,
+    i32::MAX / 2 + 1,
+    i32::MIN / 2 - 1,
+];
+
+impl<'a> Gen<'a> {
+    fn small(&mut self) -> i32 {
+        self.r.range(-4, 6) as i32
+    }
+    /// an integer argument of the current stream
+    fn val(&mut self) -> i32 {
+        if self.extreme && self.r.chance(1, 2) {
+            return *self.r.pick(&EXT);
+        }
+        match self.r.below(20) {
+            0 => *self.r.pick(&[1000, -1000, 999_999, -999_999, 1_000_000, -1_000_000, 46340, -46340, 32768]),
+            1 | 2 => self.r.range(-60, 60) as i32,
+            _ => self.small(),
+        }
+    }
+    fn fval(&mut self) -> f64 {
+        if self.extreme && self.r.chance(1, 40) {
+            return *self.r.pick(&[f64::NAN, f64::INFINITY, f64::NEG_INFINITY, f64::MAX, f64::MIN, 1e308, -1e308, f64::MIN_POSITIVE, -0.0, 1e300, 5e-324, 2147483648.0, -2147483649.0, 1e19]);
+        }
+        match self.r.below(8) {
+            0 => self.r.range(-1000, 1000) as f64 / 8.0,
+            1 => 0.0,
+            2 => *self.r.pick(&[0.1, -0.1, 1e-6, 1e-9, 0.5, 1e6, -1e6]),
+            _ => self.r.range(-8, 12) as f64 / 2.0,
+        }
+    }
+    fn v(&mut self) -> usize {
+        self.r.below(self.n.max(1) as u64 + 2) as usize
+    }
+    fn vs(&mut self, lo: usize, hi: usize) -> Vec<usize> {
+        let n = self.r.range(lo as i64, hi as i64) as usize;
+        let dup = self.r.chance(1, 6);
+        let mut v: Vec<usize> = (0..n).map(|_| self.v()).collect();
+        if dup && v.len() >= 2 {
+            v[1] = v[0];
+        }
+        v
+    }
+    fn arg(&mut self) -> A {
+        match self.r.below(10) {
+            0 | 1 => A::K(self.val()),
+            2 if self.r.chance(1, 3) => A::F(self.fval()),
+            _ => A::V(self.v()),
+        }
+    }
+    fn expr(&mut self, depth: usize) -> E {
+        if depth == 0 || self.r.chance(2, 5) {
+            return match self.r.below(8) {
+                0 | 1 => E::K(self.val()),
+                2 if self.r.chance(1, 3) => E::F(self.fval()),
+                _ => E::V(self.v()),
+            };
+        }
+        let op = self.r.below(5) as u8;
+        let a = self.expr(depth - 1);
+        let b = if (op == 3 || op == 4) && self.r.chance(1, 4) { E::K(0) } else { self.expr(depth - 1) };
+        E::B(op, Box::new(a), Box::new(b))
+    }
+    fn decl(&mut self) -> S {
+        let s = match self.r.below(16) {
+            0..=4 => {
+                // int: valid, reversed, equal
+                let a = self.val();
+                let w = match self.r.below(8) {
+                    0 => 0,
+                    1 => -(self.r.range(1, 5) as i32),
+                    _ => self.r.range(1, 7) as i32,
+                };
+                let b = a.saturating_add(w);
+                if self.r.chance(1, 12) && self.big < 2 {
+                    // a large span (memory budget!)
+                    self.big += 1;
+                    let c = self.val();
+                    S::Int(a.min(c), a.max(c))
+                } else {
+                    S::Int(a, b)
+                }
+            }
+            5 => {
+                let a = self.small();
+                let w = self.r.range(-2, 4) as i32;
+                S::Ints(self.r.below(4) as usize, a, a + w)
+            }
+            6 => {
+                let n = self.r.below(5) as usize;
+                let base = self.val();
+                let mut v: Vec<i32> = (0..n).map(|_| base.saturating_add(self.r.range(-3, 3) as i32)).collect();
+                if self.r.chance(1, 4) && !v.is_empty() {
+                    v.push(v[0]);
+                }
+                S::IntSet(v)
+            }
+            7 | 8 => S::Bool,
+            9 => S::Bools(self.r.below(4) as usize),
+            10 | 11 => {
+                let a = self.fval();
+                let b = if self.r.chance(1, 6) { a - 1.0 } else if self.r.chance(1, 6) { a } else { a + self.r.range(0, 8) as f64 / 2.0 };
+                S::Float(a, b)
+            }
+            12 => {
+                let a = self.fval();
+                S::Floats(self.r.below(3) as usize, a, a + 1.5)
+            }
+            13 => {
+                let a = self.small();
+                S::Ints2d(self.r.below(3) as usize, self.r.below(3) as usize, a, a + 2)
+            }
+            14 => {
+                let x = if self.r.chance(1, 2) { A::K(self.val()) } else { A::F(self.fval()) };
+                let y = if self.r.chance(1, 2) { A::K(self.val()) } else { A::F(self.fval()) };
+                S::NewVar(x, y)
+            }
+            _ => {
+                let a = self.small();
+                S::Int(a, a + self.r.range(0, 3) as i32)
+            }
+        };
+        self.n += match &s {
+            S::Ints(n, ..) | S::Bools(n) | S::Floats(n, ..) => *n,
+            S::Ints2d(r, c, ..) => r * c,
+            _ => 1,
+        };
+        s
+    }
+    fn post(&mut self) -> S {
+        let route = self.r.below(8) as u8;
+        match self.r.below(34) {
+            0..=2 => S::Bin { op: self.r.below(5) as u8, x: self.arg(), y: self.arg(), route: route % 2 },
+            3 => S::Abs { x: self.arg(), route: route % 2 },
+            4 | 5 => S::MinMax { is_max: self.r.chance(1, 2), vs: self.vs(0, 3), route: route % 4 },
+            6 => S::Sum { vs: self.vs(0, 4), route: route % 3 },
+            7 => S::BoolN { is_or: self.r.chance(1, 2), vs: self.vs(0, 3), route: route % 2 },
+            8 => S::Not { x: self.v(), route: route % 2 },
+            9 => S::Xor { x: self.v(), y: self.v(), route: route % 2 },
+            10 => S::Implies { x: self.v(), y: self.v(), route: route % 2 },
+            11 => S::Clause { pos: self.vs(0, 2), neg: self.vs(0, 2) },
+            12 => S::Conv { kind: self.r.below(5) as u8, a: self.v(), b: self.v(), route: route % 2 },
+            13 => S::AllDiff { vs: self.vs(0, 4), route: route % 3 },
+            14 => S::AllEq { vs: self.vs(0, 4), route: route % 3 },
+            15 | 16 => S::Element { arr: self.vs(0, 3), idx: self.v(), val: self.v(), route: route % 5 },
+            17 => {
+                let (r, c) = (self.r.below(3) as usize, self.r.below(3) as usize);
+                let ragged = self.r.chance(1, 4);
+                let rows: Vec<Vec<usize>> = (0..r).map(|i| self.vs(if ragged && i > 0 { 0 } else { c }, c)).collect();
+                S::Element2d { rows, ri: self.v(), ci: self.v(), val: self.v() }
+            }
+            18 => {
+                let (d, r, c) = (self.r.below(3) as usize, self.r.below(3) as usize, self.r.below(3) as usize);
+                let cube: Vec<Vec<Vec<usize>>> = (0..d).map(|_| (0..r).map(|_| self.vs(c, c)).collect()).collect();
+                S::Element3d { cube, di: self.v(), ri: self.v(), ci: self.v(), val: self.v() }
+            }
+            19 | 20 => {
+                let vs = self.vs(0, 3);
+                let nr = self.r.below(4) as usize;
+                let bad = self.r.chance(1, 4);
+                let rows: Vec<Vec<A>> = (0..nr)
+                    .map(|_| {
+                        let w = if bad { self.r.below(4) as usize } else { vs.len() };
+                        (0..w).map(|_| if self.r.chance(1, 10) { A::F(self.fval()) } else { A::K(self.val()) }).collect()
+                    })
+                    .collect();
+                S::Table { vs, rows, route: route % 4 }
+            }
+            21 => S::Count { vs: self.vs(0, 4), target: self.arg(), cnt: self.v(), route: route % 2 },
+            22 => match self.r.below(4) {
+                0 => S::Between(self.v(), self.v(), self.v()),
+                1 => S::Betw(self.v(), self.val(), self.val()),
+                2 => S::AtMostV(self.v(), self.val()),
+                _ => S::AtLeastV(self.v(), self.val()),
+            },
+            23 => S::Card { kind: self.r.below(3) as u8, vs: self.vs(0, 4), val: self.val(), n: if self.r.chance(1, 3) { -(self.r.range(1, 3) as i32) } else { self.val() } },
+            24 => {
+                let vs = self.vs(0, 3);
+                let nv = self.r.below(3) as usize;
+                let values: Vec<i32> = (0..nv).map(|_| self.val()).collect();
+                let nc = if self.r.chance(1, 3) { self.r.below(3) as usize } else { nv };
+                S::Gcc { vs, values, counts: self.vs(nc, nc), route: route % 3 }
+            }
+            25..=27 => {
+                let vs = self.vs(0, 3);
+                let nc = if self.r.chance(1, 3) { self.r.below(4) as usize } else { vs.len() };
+                let cs: Vec<i32> = (0..nc).map(|_| if self.r.chance(1, 6) { 0 } else { self.val() }).collect();
+                let reif = if self.r.chance(1, 3) { Some(self.v()) } else { None };
+                S::Lin { rel: self.r.below(3) as u8, cs, vs, k: self.val(), reif, route: route % 3 }
+            }
+            28 => {
+                let vs = self.vs(0, 3);
+                let nc = if self.r.chance(1, 3) { self.r.below(4) as usize } else { vs.len() };
+                let cs: Vec<f64> = (0..nc).map(|_| self.fval()).collect();
+                let reif = if self.r.chance(1, 3) { Some(self.v()) } else { None };
+                S::LinF { rel: self.r.below(3) as u8, cs, vs, k: self.fval(), reif, route: route % 2 }
+            }
+            29 => S::Reif { op: self.r.below(6) as u8, x: self.v(), y: self.v(), b: self.v(), route: route % 2 },
+            30 => {
+                let starts = self.vs(0, 3);
+                let n = if self.r.chance(1, 4) { self.r.below(3) as usize } else { starts.len() };
+                let durs: Vec<i32> = (0..n).map(|_| self.val()).collect();
+                let demands: Vec<i32> = (0..starts.len()).map(|_| self.val()).collect();
+                S::Cumulative { starts, durs, demands, cap: self.val() }
+            }
+            _ => {
+                let d = self.r.below(3) as usize;
+                S::Fluent { l: self.expr(d), op: self.r.below(6) as u8, r: self.expr(1), wrap: if self.r.chance(1, 3) { self.r.below(4) as u8 } else { 0 }, route: route % 7 }
+            }
+        }
+    }
+    fn obj(&mut self) -> Obj {
+        match self.r.below(9) {
+            0 => Obj::Opp(self.v()),
+            1 => Obj::Plus(self.v(), self.val()),
+            2 => Obj::Times(self.v(), self.val()),
+            3 => Obj::Next(self.v()),
+            4 => Obj::Prev(self.v()),
+            5 if self.r.chance(1, 3) => Obj::K(self.val()),
+            _ => Obj::V(self.v()),
+        }
+    }
+    fn call(&mut self, small_model: bool) -> Call {
+        match self.r.below(if small_model { 9 } else { 8 }) {
+            0 | 1 => Call::Solve,
+            2 => Call::Enumerate,
+            3 => Call::Minimize(self.obj()),
+            4 => Call::Maximize(self.obj()),
+            5 => Call::MinIter(self.obj()),
+            6 => Call::MaxIter(self.obj()),
+            7 => Call::Validate,
+            _ => Call::EnumStats,
+        }
+    }
+}
+
+/// span of an `int(lo,hi)` declaration that is really allocated (no swap for `int`)
+fn alloc_span(s: &S) -> u64 {
+    let span = |a: i32, b: i32| -> u64 {
+        if a > b || a == i32::MIN || b == i32::MAX { 0 } else { (b as i64 - a as i64 + 1) as u64 }
+    };
+    match s {
+        S::Int(a, b) => span(*a, *b),
+        S::Ints(n, a, b) => span(*a.min(b), *a.max(b)) * *n as u64,
+        S::Ints2d(r, c, a, b) => span(*a.min(b), *a.max(b)) * (*r * *c) as u64,
+        S::IntSet(v) if !v.is_empty() => (*v.iter().max().unwrap() as i64 - *v.iter().min().unwrap() as i64 + 1) as u64,
+        S::NewVar(A::K(a), A::K(b)) => span(*a.min(b), *a.max(b)),
+        _ => 0,
+    }
+}
+
+/// spans above this never reach the allocator in a generated case (see `gen_case`)
+const MAX_ALLOC_SPAN: u64 = 2_100_000;
+
+pub fn gen_case(r: &mut Rng, extreme: bool) -> Case {
+    let mut g = Gen { r, extreme, n: 0, big: 0 };
+    let nd = g.r.range(1, 4) as usize;
+    let mut steps: Vec<S> = (0..nd).map(|_| g.decl()).collect();
+    let np = g.r.range(0, 4) as usize;
+    for _ in 0..np {
+        if g.r.chance(1, 5) {
+            let d = g.decl();
+            steps.push(d);
+        }
+        let p = g.post();
+        steps.push(p);
+    }
+    // memory safety of the harness itself: a span that would really be allocated must stay small.
+    // `int` spans whose `hi - lo` overflows i32 never allocate (overflow panic or rejected estimate);
+    // other large spans are only kept together with a 1 MB budget that rejects them; `intset` is
+    // not covered by the budget at all, so its span is clamped.
+    let mut need_budget = false;
+    for s in steps.iter_mut() {
+        let sp_ = alloc_span(s);
+        if sp_ > MAX_ALLOC_SPAN {
+            match s {
+                S::IntSet(v) => {
+                    if (sp_ as i64) <= i32::MAX as i64 {
+                        // keep the extreme base value, drop the far one
+                        let base = v[0];
+                        v.retain(|x| (*x as i64 - base as i64).abs() < 1000);
+                    }
+                }
+                _ => {
+                    if sp_ <= i32::MAX as u64 {
+                        need_budget = true;
+                    }
+                }
+            }
+        }
+    }
+    let total: u64 = steps.iter().map(alloc_span).filter(|s| *s <= MAX_ALLOC_SPAN).sum();
+    let has_float = steps.iter().any(|s| matches!(s, S::Float(..) | S::Floats(..) | S::NewVar(..) | S::LinF { .. } | S::Conv { .. }) || matches!(s, S::Bin { op: 3, .. }) || s.show().contains('f'));
+    let small_model = total < 60 && !extreme && !has_float;
+    let mut cfg = match g.r.below(10) {
+        0 => Cfg { ctor: 0, timeout_ms: Some(60000), mem_mb: None, precision: None, unlimited: false },
+        1 => Cfg { ctor: 1, timeout_ms: Some(150), mem_mb: Some(*g.r.pick(&[1, 2, 8])), precision: None, unlimited: false },
+        2 => Cfg { ctor: 1, timeout_ms: Some(150), mem_mb: Some(0), precision: None, unlimited: false },
+        3 => Cfg { ctor: 2, timeout_ms: Some(60000), mem_mb: None, precision: Some(*g.r.pick(&[0, 1, 2, 6, 9, 12])), unlimited: false },
+        4 => Cfg { ctor: 1, timeout_ms: Some(150), mem_mb: None, precision: Some(*g.r.pick(&[1, 3, 6])), unlimited: false },
+        5 if small_model => Cfg { ctor: 1, timeout_ms: None, mem_mb: Some(0), precision: None, unlimited: true },
+        _ => Cfg { ctor: 1, timeout_ms: Some(150), mem_mb: None, precision: None, unlimited: false },
+    };
+    if cfg.timeout_ms == Some(60000) && !small_model {
+        cfg = Cfg { ctor: 1, timeout_ms: Some(150), ..cfg };
+    }
+    if cfg.ctor == 2 && !small_model {
+        cfg.ctor = 1;
+    }
+    if need_budget {
+        cfg.ctor = 1;
+        cfg.unlimited = false;
+        cfg.mem_mb = Some(1);
+    }
+    let call = g.call(small_model && total < 30);
+    Case { cfg, steps, call }
+}
+
+// ------------------------------------------------------------------------------------------------
+// oracle: what must not happen
+// ------------------------------------------------------------------------------------------------
+/// documented invalid inputs present in the case whose effect is "no solution may be returned"
+fn must_be_rejected(case: &Case, run: &Run) -> Option<&'static str> {
+    // only steps that were really executed count
+    for (s, r) in case.steps.iter().zip(&run.steps) {
+        if matches!(r, R::Skipped) {
+            continue;
+        }
+        match s {
+            S::Int(a, b) if a > b => return Some("reversed-bounds"),
+            S::IntSet(v) if v.is_empty() => return Some("empty-value-set"),
+            S::Lin { cs, vs, .. } if cs.len() != vs.len() => return Some("lin-length-mismatch"),
+            S::LinF { cs, vs, .. } if cs.len() != vs.len() => return Some("lin-length-mismatch"),
+            _ => {}
+        }
+    }
+    None
+}
+
+fn finite_ok(x: &XV) -> bool {
+    match x {
+        XV::I(_) => true,
+        XV::F(f) => f.is_finite(),
+    }
+}
+
+fn judge(out: &mut Out, line: usize, case: &Case, run: &Run, stream: &str) {
+    // (1) panics
+    if let Some(site) = first_panic(run) {
+        let tag = tag_panic(case, &site.1, &site.3);
+        let min = minimise(case, &site);
+        out.stat(&format!("{stream}.panic"));
+        out.fail(line, "C17", &tag, format!("panic at {} ({}) in step {} of [{}]; minimised: [{}]", site.2, site.3.chars().take(90).collect::<String>(), site.0, case.show(), min.show()));
+        return;
+    }
+    // (2) documented invalid inputs must not yield a solution
+    let sols: Vec<&Vec<Option<XV>>> = match &run.call {
+        Some(Res::Sol(s)) => vec![s],
+        Some(Res::Many(_, v)) => v.iter().collect(),
+        _ => vec![],
+    };
+    if let Some(why) = must_be_rejected(case, run) {
+        out.stat(&format!("{stream}.invalid.{why}"));
+        if !sols.is_empty() {
+            let reif = has_reif_lin_mismatch(case) && why == "lin-length-mismatch";
+            let tag = if reif { "lin-reif-length-unchecked".to_string() } else { format!("accepted-{why}") };
+            out.fail(line, "C17", &tag, format!("{} returned a solution although the model contains the documented invalid input {why}: [{}]", case.call.show(), case.show()));
+        }
+        if let Some(Res::Valid(true)) = &run.call {
+            out.stat(&format!("{stream}.validate-true-on.{why}"));
+        }
+    }
+    // (3) a returned solution never contains NaN / infinite values
+    for s in &sols {
+        if s.iter().flatten().any(|x| !finite_ok(x)) {
+            out.fail(line, "C17", "non-finite-solution-value", format!("solution with a non-finite value: [{}]", case.show()));
+            break;
+        }
+    }
+}
+
+fn render(run: &Run) -> String {
+    let steps: Vec<String> = run
+        .steps
+        .iter()
+        .map(|r| match r {
+            R::Ok => "ok".to_string(),
+            R::Err(e) => format!("Err({e})"),
+            R::Panic { .. } => "PANIC".to_string(),
+            R::Skipped => "skip".to_string(),
+        })
+        .collect();
+    let call = match &run.call {
+        None => "not-run".to_string(),
+        Some(Res::Sol(_)) => "solution".into(),
+        Some(Res::Many(n, _)) => format!("{n}-solutions"),
+        Some(Res::Err(n)) => format!("Err({n})"),
+        Some(Res::Panic { .. }) => "PANIC".into(),
+        Some(Res::Valid(b)) => format!("valid={b}"),
+    };
+    format!("[{}] => {call}", steps.join(","))
+}
+
+fn stat_case(out: &mut Out, stream: &str, case: &Case, run: &Run) {
+    out.stat(&format!("{stream}.cases"));
+    for (s, r) in case.steps.iter().zip(&run.steps) {
+        let name = s.show();
+        let name = name.split('(').next().unwrap_or("?").to_string();
+        out.stat(&format!("{stream}.step.{name}"));
+        match r {
+            R::Err(e) => out.stat(&format!("{stream}.step-err.{e}")),
+            R::Skipped => out.stat(&format!("{stream}.step-skipped")),
+            _ => {}
+        }
+    }
+    let cn = case.call.show();
+    out.stat(&format!("{stream}.call.{}", cn.split('(').next().unwrap_or("?")));
+    match &run.call {
+        Some(Res::Err(n)) => out.stat(&format!("{stream}.outcome.Err.{n}")),
+        Some(Res::Sol(_)) => out.stat(&format!("{stream}.outcome.solution")),
+        Some(Res::Many(0, _)) => out.stat(&format!("{stream}.outcome.no-solutions")),
+        Some(Res::Many(..)) => out.stat(&format!("{stream}.outcome.solutions")),
+        Some(Res::Valid(b)) => out.stat(&format!("{stream}.outcome.valid-{b}")),
+        _ => {}
+    }
+    out.stat(&format!("{stream}.cfg.ctor{}", case.cfg.ctor));
+    if case.cfg.timeout_ms.is_none() {
+        out.stat(&format!("{stream}.cfg.no-timeout"));
+    }
+    match case.cfg.mem_mb {
+        Some(0) => out.stat(&format!("{stream}.cfg.no-memory-limit")),
+        Some(_) => out.stat(&format!("{stream}.cfg.memory-limit")),
+        None => {}
+    }
+}
+
+/// largest float magnitude a case can create (literals, squared when a product is present)
+fn float_risk(case: &Case) -> bool {
+    let floaty = case.steps.iter().any(|s| match s {
+        S::Float(..) | S::Floats(..) | S::LinF { .. } => true,
+        S::NewVar(a, b) => matches!(a, A::F(_)) || matches!(b, A::F(_)),
+        S::Bin { op, x, y, .. } => *op % 5 == 3 || matches!(x, A::F(_)) || matches!(y, A::F(_)),
+        S::Conv { .. } => true,
+        S::MinMax { route: 3, .. } => true,
+        S::Element { route: 3, .. } => true,
+        S::Table { rows, .. } => rows.iter().flatten().any(|a| matches!(a, A::F(_))),
+        S::Fluent { .. } => s.show().contains('f') || s.show().contains('/'),
+        _ => s.show().contains("f,") || s.show().contains("f)"),
+    });
+    if !floaty {
+        return false;
+    }
+    let mut m: f64 = 1.0;
+    let mut nonfinite = false;
+    for v in case.steps.iter().flat_map(|s| s.ints()).chain(case.call.ints()) {
+        if v == i64::MAX {
+            nonfinite = true;
+        }
+        m = m.max(v.abs() as f64);
+    }
+    let has_mul = case.steps.iter().any(|s| matches!(s, S::Bin { op: 2, .. }) || s.show().contains('*'));
+    if has_mul {
+        m = m * m;
+    }
+    let step = 10f64.powi(-case.cfg.precision.filter(|p| (1..=12).contains(p)).unwrap_or(6));
+    nonfinite || m >= 1e8 || m * 2.3e-16 * 16.0 >= step
+}
+
+/// fixed reproducers of the known findings (run once per suite, each in its own process)
+fn fixed_cases() -> Vec<Case> {
+    let cfg = |t: Option<u64>, mem: Option<u64>, prec: Option<i32>| Cfg { ctor: 1, timeout_ms: t, mem_mb: mem, precision: prec, unlimited: false };
+    vec![
+        // in range: step 1e-12 is below the ULP of 10000.0 -> the search never returns, timeout ignored
+        Case { cfg: cfg(Some(150), None, Some(12)), steps: vec![S::Float(10000.0, 10001.0)], call: Call::Solve },
+        // extreme: the same with the default precision
+        Case { cfg: cfg(Some(150), None, None), steps: vec![S::Float(1e10, 10000000001.0), S::Float(0.0, 1.0)], call: Call::Solve },
+        // extreme: every split clones the space, memory grows until the allocator gives up
+        Case { cfg: cfg(Some(150), Some(64), None), steps: vec![S::Float(-1e308, 1e300)], call: Call::Solve },
+        // in range: the budget rejects the first variable, the dummy VarId(0) is then dereferenced
+        Case { cfg: cfg(Some(150), Some(1), None), steps: vec![S::Int(-1_000_000, 1_000_000), S::Bin { op: 0, x: A::V(0), y: A::K(1), route: 0 }], call: Call::Solve },
+        // in range: empty value set + equality between variables
+        Case { cfg: cfg(Some(150), None, None), steps: vec![S::IntSet(vec![]), S::Int(0, 3), S::Fluent { l: E::V(0), op: 0, r: E::V(1), wrap: 0, route: 0 }], call: Call::Solve },
+        // in range: reversed float bounds + float->int conversion
+        Case { cfg: cfg(Some(150), None, None), steps: vec![S::Float(-4.0, -5.0), S::Conv { kind: 2, a: 0, b: 0, route: 1 }], call: Call::Solve },
+        // in range: table row of the wrong arity
+        Case { cfg: cfg(Some(150), None, None), steps: vec![S::Int(0, 3), S::Table { vs: vec![0], rows: vec![vec![A::K(1), A::K(2)]], route: 0 }], call: Call::Solve },
+        // in range: reified linear helper with fewer coefficients than variables
+        Case { cfg: cfg(Some(150), None, None), steps: vec![S::Ints(2, 0, 2), S::Bool, S::Lin { rel: 1, cs: vec![1], vs: vec![0, 1], k: 1, reif: Some(2), route: 0 }], call: Call::Solve },
+        // extreme: the known overflow sites
+        Case { cfg: cfg(Some(150), None, None), steps: vec![S::Int(2_000_000_000, 2_000_000_005), S::Int(2_000_000_000, 2_000_000_005), S::Bin { op: 0, x: A::V(0), y: A::V(1), route: 0 }], call: Call::Solve },
+        Case { cfg: cfg(Some(150), None, None), steps: vec![S::IntSet(vec![i32::MAX])], call: Call::Solve },
+    ]
+}
+
+struct Iso {
+    child: bool,
+    /// the case is the `index`-th entry of `fixed_cases` instead of a generated one
+    fixed: bool,
+    seed: u64,
+    count: u64,
+    index: u64,
+}
+
+/// tags of outcomes that only a separate process can observe
+/// a float domain on which the configured step is below the ULP: the search splits without progress
+/// (`search/mod.rs`: the limit checks sit outside the descent loop), which shows as a hang or, when the
+/// cloned spaces pile up, as an allocation failure
+fn tag_hang(case: &Case, at: &str) -> String {
+    if at.starts_with("call") && float_risk(case) { "float-split-no-progress".into() } else { "-".into() }
+}
+fn tag_abort(case: &Case, at: &str) -> String {
+    if at.starts_with("call") && float_risk(case) {
+        "float-split-no-progress".into()
+    } else if case.extreme() {
+        // a creation / posting step, or the bound inference at the start of the solving call
+        // (`infer_unbounded_from_asts` for universes touching the i32::MIN / i32::MAX sentinels),
+        // allocated a sparse set of more than 1.5 GB
+        "huge-domain-allocation".into()
+    } else {
+        "-".into()
+    }
+}
+
+fn run_isolated(out: &mut Out, iso: &Iso, case: &Case, stream: &str) {
+    use std::io::Read;
+    use std::process::{Command, Stdio};
+    let exe = std::env::current_exe().unwrap();
+    let cmd = format!(
+        "ulimit -v 1500000; exec {} malformed --seed {} --count {} --from {} --to {} --child {} --out /tmp",
+        exe.display(),
+        iso.seed,
+        iso.count,
+        iso.index,
+        iso.index,
+        if iso.fixed { 2 } else { 1 }
+    );
+    let mut ch = Command::new("sh").arg("-c").arg(cmd).stdout(Stdio::piped()).stderr(Stdio::null()).spawn().unwrap();
+    let t0 = std::time::Instant::now();
+    // the known non-terminating class (float step below ULP) is given 1.5 s, everything else 6 s:
+    // a search that merely overruns its 150 ms timeout is slow, not hung (limits are C15)
+    let patience = if float_risk(case) { 1500 } else { 6000 };
+    let status = loop {
+        match ch.try_wait() {
+            Ok(Some(st)) => break Some(st),
+            Ok(None) => {
+                if t0.elapsed().as_millis() > patience {
+                    let _ = ch.kill();
+                    let _ = ch.wait();
+                    break None;
+                }
+                std::thread::sleep(std::time::Duration::from_millis(2));
+            }
+            Err(_) => break None,
+        }
+    };
+    let mut text = String::new();
+    if let Some(mut so) = ch.stdout.take() {
+        let _ = so.read_to_string(&mut text);
+    }
+    out.stat(&format!("{stream}.isolated"));
+    if t0.elapsed().as_millis() > 1000 && status.is_some() {
+        out.stat(&format!("{stream}.timeout-overrun-1s"));
+    }
+    match status {
+        Some(st) if st.success() => {
+            let mut line = 0;
+            for l in text.lines() {
+                let mut it = l.splitn(3, '\t');
+                match it.next() {
+                    Some("L") => line = out.emit(it.next().unwrap_or("#mal ?").to_string(), "-"),
+                    Some("S") => out.stat(it.next().unwrap_or("?")),
+                    Some("F") => {
+                        let tag = it.next().unwrap_or("-").to_string();
+                        out.fail(line, "C17", &tag, it.next().unwrap_or("").to_string());
+                    }
+                    _ => {}
+                }
+            }
+        }
+        Some(_) => {
+            let at = text.lines().filter(|l| l.starts_with("P\t")).last().map(|l| l[2..].to_string()).unwrap_or_default();
+            let line = out.emit(format!("#mal {stream} {} => ABORT in {at}", case.show()), "-");
+            out.stat(&format!("{stream}.abort"));
+            out.fail(line, "C17", &tag_abort(case, &at), format!("process aborted in `{at}` (allocation failure under a 1.5 GB address-space limit, or a non-unwinding panic): [{}]", case.show()));
+        }
+        None => {
+            let at = text.lines().filter(|l| l.starts_with("P\t")).last().map(|l| l[2..].to_string()).unwrap_or_default();
+            let line = out.emit(format!("#mal {stream} {} => HANG in {at}", case.show()), "-");
+            out.stat(&format!("{stream}.hang"));
+            out.fail(line, "C17", &tag_hang(case, &at), format!("no answer within {patience} ms in `{at}` although the configured timeout is {:?} ms: [{}]", case.cfg.timeout_ms, case.show()));
+        }
+    }
+}
+
+fn api_case(out: &mut Out, id: &str, r: &mut Rng, extreme: bool, iso: &Iso) {
+    let mut case = if iso.fixed { fixed_cases()[iso.index as usize].clone() } else { gen_case(r, extreme) };
+    // the stream is decided by the literals actually generated
+    let is_ext = case.extreme();
+    if !extreme && is_ext && !iso.fixed {
+        // cannot happen by construction of `val`, kept as a guard
+        case.steps.retain(|s| s.ints().iter().all(|v| v.abs() <= IN_RANGE));
+    }
+    let stream = if is_ext { "B" } else { "A" };
+    if !iso.child {
+        out.case(id);
+    }
+    if std::env::var("MAL_TRACE").is_ok() {
+        eprintln!("{id} {}", case.show());
+    }
+    if !iso.child && (float_risk(&case) || is_ext || iso.fixed) {
+        run_isolated(out, iso, &case, stream);
+        return;
+    }
+    let t0 = std::time::Instant::now();
+    let run = execute(&case);
+    let t1 = t0.elapsed();
+    let line = out.emit(format!("#mal {stream} {} => {}", case.show(), render(&run)), "-");
+    stat_case(out, stream, &case, &run);
+    judge(out, line, &case, &run, stream);
+    if std::env::var("MAL_TIME").is_ok() && t0.elapsed().as_millis() > 80 {
+        eprintln!("SLOW {id} exec={:?} total={:?} {} => {}", t1, t0.elapsed(), case.show(), render(&run));
+    }
+}
+
+// ------------------------------------------------------------------------------------------------
+// `mal.v`: the validation decision table (one documented invalid input per line)
+// ------------------------------------------------------------------------------------------------
+#[derive(Clone, Debug, PartialEq)]
+pub enum V {
+    /// `x = int(lo,hi)`
+    Bounds { lo: i32, hi: i32 },
+    /// `x = int(lo,hi); y = int(0,3); new(x.eq(y))`
+    BoundsEq { lo: i32, hi: i32 },
+    /// `x = int(lo,hi); y = int(0,3); add(x,y)`
+    BoundsUse { lo: i32, hi: i32 },
+    /// `ints(n,lo,hi)` (documented to swap reversed bounds)
+    Ints { n: usize, lo: i32, hi: i32 },
+    /// `x = intset(vals)`
+    Set { vals: Vec<i32> },
+    /// `int(0,3) × n; min/max(&those)`; route 0 `Model::min`, 1 `fn::min`, 2 `array_int_minimum`, 3 `array_float_minimum`
+    MinMax { is_max: bool, n: usize, route: u8 },
+    /// `nv` variables `int(0,2)`, `nc` coefficients 1, constant 1; rel 0 eq / 1 le / 2 ne
+    LinLen { nc: usize, nv: usize, rel: u8, reif: bool },
+    /// `x = int(1,6); y = int(lo,hi); z = div|modulo(x,y)`; op 0 div / 1 modulo; route 0 `Model::`, 1 fluent `x / y == z`
+    ZeroDiv { lo: i32, hi: i32, op: u8, route: u8 },
+    /// `n` array variables `int(0,2)`, index `int(lo,hi)`, value `int(0,2)`; route 0 `element`, 1 `array_int_element`, 2 `fn::element`
+    Elem { n: usize, lo: i32, hi: i32, route: u8 },
+    /// `with_max_memory_mb(limit)`; `x = int(lo,hi)`; optionally `add(x, 1)` afterwards; `first` = x is the first variable
+    Mem { limit: u64, lo: i32, hi: i32, post: bool, first: bool },
+    /// `nv` variables, one table row of `rowlen` values
+    TableArity { nv: usize, rowlen: usize },
+    /// `alldiff([x, x])` on `int(0,3)`
+    AllDiffDup { dup: bool },
+}
+
+#[derive(Clone, Copy, Debug, PartialEq)]
+pub enum VC {
+    Solve,
+    Enum,
+    Min,
+    Max,
+    MinIter,
+    MaxIter,
+}
+
+impl VC {
+    const ALL: [VC; 6] = [VC::Solve, VC::Enum, VC::Min, VC::Max, VC::MinIter, VC::MaxIter];
+    fn name(self) -> &'static str {
+        match self {
+            VC::Solve => "solve",
+            VC::Enum => "enum",
+            VC::Min => "min",
+            VC::Max => "max",
+            VC::MinIter => "miniter",
+            VC::MaxIter => "maxiter",
+        }
+    }
+    fn parse(s: &str) -> Option<VC> {
+        VC::ALL.iter().copied().find(|c| c.name() == s)
+    }
+    fn iterating(self) -> bool {
+        matches!(self, VC::Enum | VC::MinIter | VC::MaxIter)
+    }
+}
+
+impl V {
+    pub fn tokens(&self) -> String {
+        match self {
+            V::Bounds { lo, hi } => format!("bounds {lo} {hi}"),
+            V::BoundsEq { lo, hi } => format!("boundseq {lo} {hi}"),
+            V::BoundsUse { lo, hi } => format!("boundsuse {lo} {hi}"),
+            V::Ints { n, lo, hi } => format!("ints {n} {lo} {hi}"),
+            V::Set { vals } => format!("set {}", vals.iter().map(|v| v.to_string()).collect::<Vec<_>>().join(" ")).trim_end().to_string(),
+            V::MinMax { is_max, n, route } => format!("minmax {} {n} {route}", if *is_max { 1 } else { 0 }),
+            V::LinLen { nc, nv, rel, reif } => format!("linlen {nc} {nv} {rel} {}", if *reif { 1 } else { 0 }),
+            V::ZeroDiv { lo, hi, op, route } => format!("zerodiv {lo} {hi} {op} {route}"),
+            V::Elem { n, lo, hi, route } => format!("elem {n} {lo} {hi} {route}"),
+            V::Mem { limit, lo, hi, post, first } => format!("mem {limit} {lo} {hi} {} {}", if *post { 1 } else { 0 }, if *first { 1 } else { 0 }),
+            V::TableArity { nv, rowlen } => format!("tablearity {nv} {rowlen}"),
+            V::AllDiffDup { dup } => format!("alldiffdup {}", if *dup { 1 } else { 0 }),
+        }
+    }
+    pub fn parse(ws: &[&str]) -> Option<V> {
+        let i = |k: usize| -> Option<i32> { ws.get(k)?.parse().ok() };
+        let u = |k: usize| -> Option<usize> { ws.get(k)?.parse().ok() };
+        Some(match *ws.first()? {
+            "bounds" => V::Bounds { lo: i(1)?, hi: i(2)? },
+            "boundseq" => V::BoundsEq { lo: i(1)?, hi: i(2)? },
+            "boundsuse" => V::BoundsUse { lo: i(1)?, hi: i(2)? },
+            "ints" => V::Ints { n: u(1)?, lo: i(2)?, hi: i(3)? },
+            "set" => V::Set { vals: ws[1..].iter().map(|w| w.parse().ok()).collect::<Option<Vec<i32>>>()? },
+            "minmax" => V::MinMax { is_max: u(1)? == 1, n: u(2)?, route: u(3)? as u8 },
+            "linlen" => V::LinLen { nc: u(1)?, nv: u(2)?, rel: u(3)? as u8, reif: u(4)? == 1 },
+            "zerodiv" => V::ZeroDiv { lo: i(1)?, hi: i(2)?, op: u(3)? as u8, route: u(4)? as u8 },
+            "elem" => V::Elem { n: u(1)?, lo: i(2)?, hi: i(3)?, route: u(4)? as u8 },
+            "mem" => V::Mem { limit: u(1)? as u64, lo: i(2)?, hi: i(3)?, post: u(4)? == 1, first: u(5)? == 1 },
+            "tablearity" => V::TableArity { nv: u(1)?, rowlen: u(2)? },
+            "alldiffdup" => V::AllDiffDup { dup: u(1)? == 1 },
+            _ => return None,
+        })
+    }
+    /// is this one of the *documented invalid inputs* of the property text (must end in Err / unsat)?
+    pub fn documented_invalid(&self) -> Option<&'static str> {
+        match self {
+            V::Bounds { lo, hi } | V::BoundsEq { lo, hi } | V::BoundsUse { lo, hi } if lo > hi => Some("reversed-bounds"),
+            V::Set { vals } if vals.is_empty() => Some("empty-value-set"),
+            V::MinMax { n: 0, .. } => Some("empty-min-max-list"),
+            V::LinLen { nc, nv, .. } if nc != nv => Some("lin-length-mismatch"),
+            V::ZeroDiv { lo, hi, .. } if *lo <= 0 && 0 <= *hi => Some("zero-in-divisor-domain"),
+            V::Elem { n, lo, hi, .. } if *hi < 0 || *lo >= *n as i32 => Some("element-index-out-of-range"),
+            V::Mem { limit, lo, hi, post, first } if lo <= hi && mem_exceeded(*limit, *lo, *hi, *post, *first) => Some("memory-budget-exceeded"),
+            _ => None,
+        }
+    }
+}
+
+/// `Model::estimate_variable_memory` for an integer variable (re-stated)
+fn mem_estimate(lo: i32, hi: i32) -> u64 {
+    let d = (hi as i64 - lo as i64 + 1) as u64;
+    if d > 1000 { 96 + 48 + d * 8 / 8 } else { 96 + 48 + d * 8 }
+}
+
+/// the running total of `add_memory_usage` over the creations of the `mem` scenario exceeds the budget
+fn mem_exceeded(limit: u64, lo: i32, hi: i32, post: bool, first: bool) -> bool {
+    let mut sizes = vec![];
+    if !first {
+        sizes.push(mem_estimate(0, 1));
+    }
+    sizes.push(mem_estimate(lo, hi));
+    if post {
+        sizes.push(mem_estimate(lo, hi));
+    }
+    if first {
+        sizes.push(mem_estimate(0, 1));
+    }
+    let mut total = 0u64;
+    for s in sizes {
+        total += s;
+        if total > limit * 1024 * 1024 {
+            return true;
+        }
+    }
+    false
+}
+
+/// outcome classes compared with the model
+fn v_outcome(v: &V, call: VC) -> String {
+    let r = guarded(|| -> String {
+        let mut m = match v {
+            V::Mem { limit, .. } => Model::with_config(sp::config::SolverConfig::default().with_timeout_ms(2000).with_max_memory_mb(*limit)),
+            _ => Model::with_config(sp::config::SolverConfig::default().with_timeout_ms(2000)),
+        };
+        let mut post_err: Option<String> = None;
+        // objective variable
+        let obj: VarId = match v {
+            V::Bounds { lo, hi } => m.int(*lo, *hi),
+            V::BoundsEq { lo, hi } => {
+                let x = m.int(*lo, *hi);
+                let y = m.int(0, 3);
+                m.new(x.eq(y));
+                y
+            }
+            V::BoundsUse { lo, hi } => {
+                let x = m.int(*lo, *hi);
+                let y = m.int(0, 3);
+                m.add(x, y);
+                y
+            }
+            V::Ints { n, lo, hi } => {
+                let anchor = m.int(0, 1);
+                m.ints(*n, *lo, *hi);
+                anchor
+            }
+            V::Set { vals } => {
+                let anchor = m.int(0, 1);
+                m.intset(vals.clone());
+                anchor
+            }
+            V::MinMax { is_max, n, route } => {
+                let anchor = m.int(0, 1);
+                let xs = m.ints(*n, 0, 3);
+                let r = match (*is_max, route % 4) {
+                    (false, 0) => m.min(&xs),
+                    (false, 1) => sp::min(&mut m, &xs),
+                    (false, 2) => m.array_int_minimum(&xs),
+                    (false, _) => m.array_float_minimum(&xs),
+                    (true, 0) => m.max(&xs),
+                    (true, 1) => sp::max(&mut m, &xs),
+                    (true, 2) => m.array_int_maximum(&xs),
+                    (true, _) => m.array_float_maximum(&xs),
+                };
+                if let Err(e) = r {
+                    post_err = Some(err_name(&e).to_string());
+                }
+                anchor
+            }
+            V::LinLen { nc, nv, rel, reif } => {
+                let anchor = m.int(0, 1);
+                let xs = m.ints(*nv, 0, 2);
+                let cs = vec![1i32; *nc];
+                if *reif {
+                    let b = m.bool();
+                    match rel % 3 {
+                        0 => m.lin_eq_reif(&cs, &xs, 1, b),
+                        1 => m.lin_le_reif(&cs, &xs, 1, b),
+                        _ => m.lin_ne_reif(&cs, &xs, 1, b),
+                    }
+                } else {
+                    match rel % 3 {
+                        0 => m.lin_eq(&cs, &xs, 1),
+                        1 => m.lin_le(&cs, &xs, 1),
+                        _ => m.lin_ne(&cs, &xs, 1),
+                    }
+                }
+                anchor
+            }
+            V::ZeroDiv { lo, hi, op, route } => {
+                let x = m.int(1, 6);
+                let y = m.int(*lo, *hi);
+                match (op % 2, route % 2) {
+                    (0, 0) => {
+                        m.div(x, y);
+                    }
+                    (1, 0) => {
+                        m.modulo(x, y);
+                    }
+                    (0, _) => {
+                        let z = m.int(-6, 6);
+                        m.new(x.div(y).eq(z));
+                    }
+                    _ => {
+                        let z = m.int(-6, 6);
+                        m.new(x.modulo(y).eq(z));
+                    }
+                }
+                y
+            }
+            V::Elem { n, lo, hi, route } => {
+                let arr = m.ints(*n, 0, 2);
+                let idx = m.int(*lo, *hi);
+                let val = m.int(0, 2);
+                match route % 3 {
+                    0 => {
+                        m.element(&arr, idx, val);
+                    }
+                    1 => m.array_int_element(idx, &arr, val),
+                    _ => {
+                        sp::element(&mut m, &arr, idx);
+                    }
+                }
+                idx
+            }
+            V::Mem { lo, hi, post, first, .. } => {
+                let anchor = if *first { None } else { Some(m.int(0, 1)) };
+                let x = m.int(*lo, *hi);
+                if *post {
+                    m.add(x, Val::ValI(1));
+                }
+                // the objective is always the small anchor variable (optimising over `x` itself
+                // is only slow, which would make the outcome depend on the clock)
+                match anchor {
+                    Some(a) => a,
+                    None => m.int(0, 1),
+                }
+            }
+            V::TableArity { nv, rowlen } => {
+                let anchor = m.int(0, 1);
+                let xs = m.ints(*nv, 0, 2);
+                m.table(&xs, vec![vec![Val::ValI(1); *rowlen]]);
+                anchor
+            }
+            V::AllDiffDup { dup } => {
+                let x = m.int(0, 3);
+                let y = m.int(0, 3);
+                Model::alldiff(&mut m, &[x, if *dup { x } else { y }]);
+                x
+            }
+        };
+        let pe = post_err.map(|e| format!("posterr {e} ")).unwrap_or_default();
+        let one = |r: Result<Solution, SolverError>| match r {
+            Ok(_) => "sol".to_string(),
+            Err(SolverError::NoSolution { .. }) => "nosolution".to_string(),
+            Err(e) => format!("err {}", err_name(&e)),
+        };
+        let many = |n: usize| if n == 0 { "empty".to_string() } else { "sols".to_string() };
+        let r = match call {
+            VC::Solve => one(m.solve()),
+            VC::Min => one(m.minimize(obj)),
+            VC::Max => one(m.maximize(obj)),
+            VC::Enum => many(m.enumerate().take(3).count()),
+            VC::MinIter => many(m.minimize_and_iterate(obj).take(3).count()),
+            VC::MaxIter => many(m.maximize_and_iterate(obj).take(3).count()),
+        };
+        format!("{pe}{r}")
+    });
+    match r {
+        Some(s) => s,
+        None => {
+            let (loc, msg) = take_panic();
+            format!("panic@{}@{}", loc_file(&loc), msg_kind(&msg))
+        }
+    }
+}
+
+/// tag of a validation-table line whose outcome violates the property
+fn v_tag(v: &V, res: &str) -> &'static str {
+    let panic = res.starts_with("panic");
+    match v {
+        V::BoundsEq { lo, hi } | V::BoundsUse { lo, hi } if lo > hi && panic && res.contains("sparse_set.rs") && res.ends_with("assert") => "empty-domain-view-panic",
+        V::LinLen { nc, nv, reif: true, .. } if nc != nv => "lin-reif-length-unchecked",
+        V::TableArity { nv, rowlen } if nv != rowlen && panic && res.contains("table.rs") => "table-row-arity-panic",
+        V::Mem { first: true, post: true, .. } if panic && res.contains("views.rs") && res.ends_with("index") => "memory-limit-dummy-varid-panic",
+        _ => "-",
+    }
+}
+
+pub fn do_v(out: &mut Out, v: &V, call: VC) {
+    let res = v_outcome(v, call);
+    // the protocol result drops the panic site (the model only says `panic`)
+    let shown = if res.starts_with("panic") { "panic".to_string() } else { res.clone() };
+    let line = out.emit(format!("mal.v {} {}", v.tokens(), call.name()), shown);
+    out.stat(&format!("v.{}", v.tokens().split(' ').next().unwrap_or("?")));
+    out.stat(&format!("v.call.{}", call.name()));
+    let accepted = res.ends_with("sol") || res.ends_with("sols");
+    if res.starts_with("panic") {
+        out.stat("v.panic");
+        out.fail(line, "C17", v_tag(v, &res), format!("panic ({res}) for `{}` + {}", v.tokens(), call.name()));
+    } else if let Some(why) = v.documented_invalid() {
+        out.stat(&format!("v.invalid.{why}"));
+        // `posterr` = the posting call itself returned `Err`: the invalid input surfaced
+        let surfaced = !accepted || res.starts_with("posterr");
+        // zero in a divisor's domain: a returned solution is accepted when the divisor is non-zero
+        // (api/arithmetic.rs: "the solver will ensure y ≠ 0"); the strict reading is kept in the stats
+        if !surfaced {
+            if why == "zero-in-divisor-domain" {
+                out.stat("v.zero-divisor-accepted-with-solution");
+            } else {
+                let t = v_tag(v, &res);
+                let t = if t == "-" { format!("accepted-{why}") } else { t.to_string() };
+                out.fail(line, "C17", &t, format!("`{}` + {}: documented invalid input ({why}) neither surfaced as Err nor as an unsatisfiable verdict: {res}", v.tokens(), call.name()));
+            }
+        }
+    }
+    let _ = call.iterating();
+}
+
+fn v_cases(r: &mut Rng) -> Vec<V> {
+    let mut vs = vec![];
+    let lo = r.range(-5, 5) as i32;
+    let w = r.range(-3, 3) as i32;
+    vs.push(V::Bounds { lo, hi: lo + w });
+    vs.push(V::BoundsEq { lo: r.range(-2, 4) as i32, hi: r.range(-2, 4) as i32 });
+    vs.push(V::BoundsUse { lo: r.range(-2, 4) as i32, hi: r.range(-2, 4) as i32 });
+    vs.push(V::Ints { n: r.below(3) as usize, lo, hi: lo + w });
+    let n = r.below(4) as usize;
+    vs.push(V::Set { vals: (0..n).map(|_| r.range(-3, 3) as i32).collect() });
+    vs.push(V::MinMax { is_max: r.chance(1, 2), n: r.below(3) as usize, route: r.below(4) as u8 });
+    vs.push(V::LinLen { nc: r.below(4) as usize, nv: r.below(4) as usize, rel: r.below(3) as u8, reif: r.chance(1, 3) });
+    let dlo = r.range(-3, 2) as i32;
+    vs.push(V::ZeroDiv { lo: dlo, hi: dlo + r.range(0, 3) as i32, op: r.below(2) as u8, route: r.below(2) as u8 });
+    let ilo = r.range(-4, 4) as i32;
+    vs.push(V::Elem { n: r.below(4) as usize, lo: ilo, hi: ilo + r.range(0, 3) as i32, route: r.below(3) as u8 });
+    let big = *r.pick(&[10, 1000, 1001, 200_000, 1_048_000, 1_048_500, 1_500_000, 2_000_000]);
+    let mlo = r.range(-1_000_000, 0) as i32;
+    vs.push(V::Mem { limit: *r.pick(&[1, 2]), lo: mlo, hi: (mlo as i64 + big - 1).min(1_000_000) as i32, post: r.chance(1, 2), first: r.chance(1, 2) });
+    vs.push(V::TableArity { nv: r.below(3) as usize + 1, rowlen: r.below(4) as usize });
+    vs.push(V::AllDiffDup { dup: r.chance(1, 2) });
+    vs
+}
+
+// ------------------------------------------------------------------------------------------------
+// `mal.ss` / `mal.view` / `mal.lin`: direct calls with extreme values, compared with the safety
+// predicates of the model ("panic" iff a site fails)
+// ------------------------------------------------------------------------------------------------
+fn show_ssm(s: &SparseSet) -> String {
+    format!("size={} vals={}", s.size(), crate::out::show_ints(&s.to_vec()))
+}
+
+/// classification of a direct-call panic: in-range arguments (|v| ≤ 10^6) never excuse a panic
+fn direct_tag(args: &[i64], msg: &str, what: &str) -> String {
+    let extreme = args.iter().any(|v| v.abs() > IN_RANGE);
+    let k = msg_kind(msg);
+    if k == "overflow" && extreme {
+        "i32-overflow".into()
+    } else if (k == "assert" && (what == "min" || what == "max")) || (what == "restoresize" && msg.contains("larger than universe")) {
+        // explicit precondition (debug assertion) of a doc-hidden method, violated on purpose by the
+        // direct call: compared with the model, not a finding
+        "precondition".into()
+    } else {
+        "-".into()
+    }
+}
+
+pub struct SsCase {
+    s: Option<SparseSet>,
+    dead: bool,
+}
+
+/// one `mal.ss` op; returns false when the case is over (panic)
+pub fn do_ss(c: &mut SsCase, out: &mut Out, op: &str) -> bool {
+    let ws: Vec<&str> = op.split_whitespace().collect();
+    let ints: Vec<i32> = ws[1..].iter().filter_map(|w| w.parse().ok()).collect();
+    let args: Vec<i64> = ints.iter().map(|v| *v as i64).collect();
+    let line_txt = format!("mal.ss {op}");
+    if c.dead {
+        out.emit(line_txt, "dead");
+        return false;
+    }
+    let empty = SparseSet::new_from_values(vec![]);
+    let cur = c.s.take().unwrap_or(empty);
+    let mut work = cur.clone();
+    let r: Option<String> = guarded(|| match ws[0] {
+        "new" => {
+            work = SparseSet::new(ints[0], ints[1]);
+            show_ssm(&work)
+        }
+        "unchecked" => {
+            work = SparseSet::new_unchecked(ints[0], ints[1]);
+            show_ssm(&work)
+        }
+        "values" => {
+            work = SparseSet::new_from_values(ints.clone());
+            show_ssm(&work)
+        }
+        "contains" => crate::out::b(work.contains(ints[0])).to_string(),
+        "remove" => {
+            work.remove(ints[0]);
+            show_ssm(&work)
+        }
+        "below" => {
+            work.remove_below(ints[0]);
+            show_ssm(&work)
+        }
+        "above" => {
+            work.remove_above(ints[0]);
+            show_ssm(&work)
+        }
+        "only" => {
+            work.remove_all_but(ints[0]);
+            show_ssm(&work)
+        }
+        "clear" => {
+            work.remove_all();
+            show_ssm(&work)
+        }
+        "min" => work.min().to_string(),
+        "max" => work.max().to_string(),
+        "maxuniv" => work.max_universe_value().to_string(),
+        "first" => work.first().map(|v| v.to_string()).unwrap_or("-".into()),
+        "last" => work.last().map(|v| v.to_string()).unwrap_or("-".into()),
+        "iter" => crate::out::show_ints(&work.iter().collect::<Vec<_>>()),
+        "comp" => crate::out::show_ints(&work.complement_iter().collect::<Vec<_>>()),
+        "restoresize" => {
+            work.restore_size(ints[0] as u32);
+            show_ssm(&work)
+        }
+        "inter" => {
+            let o = SparseSet::new_from_values(ints.clone());
+            work.intersect_with(&o);
+            show_ssm(&work)
+        }
+        "diff" => {
+            let o = SparseSet::new_from_values(ints.clone());
+            work.diff_with(&o);
+            show_ssm(&work)
+        }
+        "union" => {
+            let o = SparseSet::new_from_values(ints.clone());
+            work.union_with(&o);
+            show_ssm(&work)
+        }
+        "subset" => {
+            let o = SparseSet::new_from_values(ints.clone());
+            crate::out::b(work.is_subset_of(&o)).to_string()
+        }
+        "equals" => {
+            let o = SparseSet::new_from_values(ints.clone());
+            crate::out::b(work.equals(&o)).to_string()
+        }
+        _ => "bad-op".to_string(),
+    });
+    out.stat(&format!("ss.{}", ws[0]));
+    match r {
+        Some(res) => {
+            c.s = Some(work);
+            out.emit(line_txt, format!("ok {res}"));
+            true
+        }
+        None => {
+            let (loc, msg) = take_panic();
+            let l = out.emit(line_txt, "panic");
+            out.stat("ss.panic");
+            // the universe of the receiver counts as an argument
+            let mut a = args.clone();
+            a.push(cur.min_universe_value() as i64);
+            a.push(cur.min_universe_value() as i64 + cur.universe_size() as i64);
+            let tag = direct_tag(&a, &msg, ws[0]);
+            if tag == "precondition" {
+                out.stat("ss.panic.precondition");
+                c.dead = true;
+                return false;
+            }
+            out.fail(l, "C17", &tag, format!("SparseSet::{op} on universe [{}..+{}) panicked at {loc}: {}", cur.min_universe_value(), cur.universe_size(), msg.chars().take(80).collect::<String>()));
+            c.dead = true;
+            false
+        }
+    }
+}
+
+const OFFS: [i32; 14] = [0, -3, 5, 1000, -1_000_000, 999_990, i32::MAX - 6, i32::MAX - 12, i32::MIN, i32::MIN + 4, 1 << 30, -(1 << 30), (1 << 30) - 4, -(1 << 30) - 4];
+
+fn ss_arg(r: &mut Rng, lo: i32, n: i32) -> i32 {
+    match r.below(8) {
+        0 => *r.pick(&[i32::MAX, i32::MIN, i32::MAX - 1, i32::MIN + 1, 0, -1, 1 << 30, -(1 << 30)]),
+        1 => lo.saturating_sub(r.range(1, 3) as i32),
+        2 => lo.saturating_add(n).saturating_add(r.range(0, 2) as i32),
+        _ => lo.saturating_add(r.range(0, n.max(1) as i64 - 1) as i32),
+    }
+}
+
+fn ss_vals(r: &mut Rng, lo: i32, n: i32) -> String {
+    let k = r.below(4) as usize;
+    let base = if r.chance(1, 5) { *r.pick(&OFFS) } else { lo };
+    let mut v: Vec<i32> = (0..k).map(|_| base.saturating_add(r.range(-1, n as i64) as i32)).collect();
+    if r.chance(1, 12) {
+        // a value far away: the operand's universe `max - min` overflows i32 (no allocation happens)
+        let far = if base > 0 { i32::MIN + r.range(0, 5) as i32 } else { i32::MAX - r.range(0, 5) as i32 };
+        if (far as i64 - base as i64).abs() > i32::MAX as i64 + 20 {
+            v.push(far);
+        }
+    }
+    v.iter().map(|x| x.to_string()).collect::<Vec<_>>().join(" ")
+}
+
+fn ss_case(out: &mut Out, r: &mut Rng) {
+    let mut c = SsCase { s: None, dead: false };
+    let lo = *r.pick(&OFFS);
+    let n = r.range(1, 9) as i32;
+    // creation: small span at `lo`, reversed, or a span that overflows `max - min` (never allocated)
+    let create = match r.below(10) {
+        0 => format!("new {} {}", lo.saturating_add(n - 1), lo),
+        1 => format!("unchecked {} {}", lo.saturating_add(n - 1), lo),
+        2 => {
+            let (a, b) = *r.pick(&[(i32::MIN, i32::MAX), (i32::MIN, 0), (-2, i32::MAX), (i32::MIN + 5, 5), (-(1 << 30) - 1, 1 << 30)]);
+            format!("new {a} {b}")
+        }
+        3 | 4 => format!("values {}", ss_vals(r, lo, n)),
+        _ => format!("new {} {}", lo, lo.saturating_add(n - 1)),
+    };
+    if !do_ss(&mut c, out, &create) {
+        return;
+    }
+    let (ulo, un) = match &c.s {
+        Some(s) => (s.min_universe_value(), s.universe_size() as i32),
+        None => (lo, n),
+    };
+    for _ in 0..r.range(1, 7) {
+        let a = ss_arg(r, ulo, un);
+        let op = match r.below(22) {
+            0 | 1 => format!("contains {a}"),
+            2 | 3 => format!("remove {a}"),
+            4 | 5 => format!("below {a}"),
+            6 | 7 => format!("above {a}"),
+            8 => format!("only {a}"),
+            9 => "clear".to_string(),
+            10 => "min".to_string(),
+            11 => "max".to_string(),
+            12 => "maxuniv".to_string(),
+            13 => "first".to_string(),
+            14 => "last".to_string(),
+            15 => "iter".to_string(),
+            16 => "comp".to_string(),
+            17 => format!("inter {}", ss_vals(r, ulo, un)),
+            18 => format!("diff {}", ss_vals(r, ulo, un)),
+            19 => format!("union {}", ss_vals(r, ulo, un)),
+            20 => format!("{} {}", if r.chance(1, 2) { "subset" } else { "equals" }, ss_vals(r, ulo, un)),
+            _ => format!("restoresize {}", r.below(un as u64 + 3)),
+        };
+        let op = op.trim_end().to_string();
+        if !do_ss(&mut c, out, &op) {
+            return;
+        }
+    }
+}
+
+// ---- views -------------------------------------------------------------------------------------
+use crate::core::{VSpec, ViewK};
+use selen::variables::views::{Context, View, ViewExt};
+use selen::variables::Vars;
+
+macro_rules! vlevel {
+    ($name:ident, $inner:ident) => {
+        fn $name<K: ViewK>(s: &VSpec, ids: &[VarId], k: K) -> K::Out {
+            struct OppK<K>(K);
+            impl<K: ViewK> ViewK for OppK<K> {
+                type Out = K::Out;
+                fn call<V: View>(self, v: V) -> K::Out { self.0.call(v.opposite()) }
+            }
+            struct PlusK<K>(K, i32);
+            impl<K: ViewK> ViewK for PlusK<K> {
+                type Out = K::Out;
+                fn call<V: View>(self, v: V) -> K::Out { self.0.call(v.plus(Val::ValI(self.1))) }
+            }
+            struct TPosK<K>(K, i32);
+            impl<K: ViewK> ViewK for TPosK<K> {
+                type Out = K::Out;
+                fn call<V: View>(self, v: V) -> K::Out { self.0.call(v.times_pos(Val::ValI(self.1))) }
+            }
+            struct TimesK<K>(K, i32);
+            impl<K: ViewK> ViewK for TimesK<K> {
+                type Out = K::Out;
+                fn call<V: View>(self, v: V) -> K::Out { self.0.call(v.times(Val::ValI(self.1))) }
+            }
+            struct TNegK<K>(K, i32);
+            impl<K: ViewK> ViewK for TNegK<K> {
+                type Out = K::Out;
+                fn call<V: View>(self, v: V) -> K::Out { self.0.call(v.times_neg(Val::ValI(self.1))) }
+            }
+            struct NextK<K>(K);
+            impl<K: ViewK> ViewK for NextK<K> {
+                type Out = K::Out;
+                fn call<V: View>(self, v: V) -> K::Out { self.0.call(v.next()) }
+            }
+            struct PrevK<K>(K);
+            impl<K: ViewK> ViewK for PrevK<K> {
+                type Out = K::Out;
+                fn call<V: View>(self, v: V) -> K::Out { self.0.call(v.prev()) }
+            }
+            match s {
+                VSpec::C(_) | VSpec::V(_) => vlevel0(s, ids, k),
+                VSpec::Opp(v) => $inner(v, ids, OppK(k)),
+                VSpec::Plus(c, v) => $inner(v, ids, PlusK(k, *c)),
+                VSpec::TPos(c, v) => $inner(v, ids, TPosK(k, *c)),
+                VSpec::Times(c, v) => $inner(v, ids, TimesK(k, *c)),
+                VSpec::TNeg(c, v) => $inner(v, ids, TNegK(k, *c)),
+                VSpec::Next(v) => $inner(v, ids, NextK(k)),
+                VSpec::Prev(v) => $inner(v, ids, PrevK(k)),
+            }
+        }
+    };
+}
+fn vlevel0<K: ViewK>(s: &VSpec, ids: &[VarId], k: K) -> K::Out {
+    match s {
+        VSpec::C(c) => k.call(Val::ValI(*c)),
+        VSpec::V(i) => k.call(ids[*i]),
+        _ => panic!("view too deep"),
+    }
+}
+vlevel!(vlevel1, vlevel0);
+vlevel!(vlevel2, vlevel1);
+
+fn view_ints(v: &VSpec, o: &mut Vec<i64>) {
+    match v {
+        VSpec::C(k) => o.push(*k as i64),
+        VSpec::V(_) => {}
+        VSpec::Opp(x) | VSpec::Next(x) | VSpec::Prev(x) => view_ints(x, o),
+        VSpec::Plus(k, x) | VSpec::TPos(k, x) | VSpec::Times(k, x) | VSpec::TNeg(k, x) => {
+            o.push(*k as i64);
+            view_ints(x, o)
+        }
+    }
+}
+
+fn show_val(v: Val) -> String {
+    match v {
+        Val::ValI(i) => i.to_string(),
+        Val::ValF(f) => format!("f{f}"),
+    }
+}
+
+/// `mal.view <lo> <hi> <op> <m> <view>`
+pub fn do_view(out: &mut Out, lo: i32, hi: i32, op: &str, m: i32, v: &VSpec) {
+    struct K<'a> {
+        vars: &'a mut Vars,
+        op: &'a str,
+        m: i32,
+        id: VarId,
+    }
+    impl<'a> ViewK for K<'a> {
+        type Out = String;
+        fn call<V: View>(self, v: V) -> String {
+            let mut events = Vec::new();
+            let r = {
+                let mut ctx = Context::verif_new(self.vars, &mut events);
+                match self.op {
+                    "min" => return show_val(v.min(&ctx)),
+                    "max" => return show_val(v.max(&ctx)),
+                    "setmin" => v.try_set_min(Val::ValI(self.m), &mut ctx).map(|_| ()),
+                    _ => v.try_set_max(Val::ValI(self.m), &mut ctx).map(|_| ()),
+                }
+            };
+            match r {
+                None => "none".to_string(),
+                Some(()) => match &self.vars[self.id] {
+                    selen::variables::Var::VarI(s) => if s.is_empty() { "empty".into() } else { format!("{}..{}", s.min(), s.max()) },
+                    _ => "?".into(),
+                },
+            }
+        }
+    }
+    let line = format!("mal.view {lo} {hi} {op} {m} {}", v.tokens());
+    let r = guarded(|| {
+        let mut vars = Vars::new();
+        let id = vars.new_var_with_values((lo..=hi).collect());
+        let ids = [id];
+        vlevel2(v, &ids, K { vars: &mut vars, op, m, id })
+    });
+    out.stat(&format!("view.{op}"));
+    match r {
+        Some(s) => {
+            out.emit(line, format!("ok {s}"));
+        }
+        None => {
+            let (loc, msg) = take_panic();
+            let l = out.emit(line, "panic");
+            out.stat("view.panic");
+            let mut a = vec![lo as i64, hi as i64];
+            if op.starts_with("set") {
+                a.push(m as i64);
+            }
+            view_ints(v, &mut a);
+            // products of in-range factors may leave i32 as well: the magnitude the view reaches counts
+            let reach = {
+                let b = (lo as i64).abs().max((hi as i64).abs());
+                fn mag(v: &VSpec, b: i64) -> i64 {
+                    match v {
+                        VSpec::C(k) => (*k as i64).abs(),
+                        VSpec::V(_) => b,
+                        VSpec::Opp(x) => mag(x, b),
+                        VSpec::Next(x) | VSpec::Prev(x) => mag(x, b) + 1,
+                        VSpec::Plus(k, x) => mag(x, b) + (*k as i64).abs(),
+                        VSpec::TPos(k, x) | VSpec::Times(k, x) | VSpec::TNeg(k, x) => mag(x, b).saturating_mul((*k as i64).abs()),
+                    }
+                }
+                mag(v, b)
+            };
+            a.push(reach);
+            let tag = direct_tag(&a, &msg, op);
+            out.fail(l, "C17", &tag, format!("view {} over [{lo},{hi}] {op} {m} panicked at {loc}: {}", v.tokens(), msg.chars().take(80).collect::<String>()));
+        }
+    }
+}
+
+fn view_k(r: &mut Rng, extreme: bool) -> i32 {
+    if extreme && r.chance(1, 2) {
+        *r.pick(&[i32::MAX, i32::MIN, i32::MIN + 1, 1 << 30, -(1 << 30), 65536, -65536, 46341, 2])
+    } else {
+        r.range(-4, 5) as i32
+    }
+}
+
+fn rand_view_spec(r: &mut Rng, depth: usize, extreme: bool) -> VSpec {
+    if depth == 0 {
+        return if r.chance(1, 8) { VSpec::C(view_k(r, extreme)) } else { VSpec::V(0) };
+    }
+    let inner = Box::new(rand_view_spec(r, depth - 1, extreme));
+    match r.below(8) {
+        0 => VSpec::Opp(inner),
+        1 | 2 => VSpec::Plus(view_k(r, extreme), inner),
+        3 => VSpec::TPos(view_k(r, extreme).max(1), inner),
+        4 => VSpec::Times(view_k(r, extreme), inner),
+        5 => {
+            let k = view_k(r, extreme);
+            VSpec::TNeg(if k >= 0 { -1 - (k % 7) } else { k }, inner)
+        }
+        6 => VSpec::Next(inner),
+        _ => VSpec::Prev(inner),
+    }
+}
+
+fn view_case(out: &mut Out, r: &mut Rng) {
+    let extreme = r.chance(1, 2);
+    let lo = if extreme { *r.pick(&OFFS) } else { r.range(-8, 8) as i32 };
+    let hi = lo.saturating_add(r.range(0, 5) as i32);
+    let depth = r.below(3) as usize;
+    let v = rand_view_spec(r, depth, extreme);
+    let op = *r.pick(&["min", "max", "setmin", "setmax"]);
+    let m = if extreme && r.chance(1, 2) { *r.pick(&[i32::MAX, i32::MIN, i32::MIN + 1, i32::MAX - 1, 1 << 30, -(1 << 30)]) } else { lo.saturating_add(r.range(-3, 8) as i32) };
+    do_view(out, lo, hi, op, if op.starts_with("set") { m } else { 0 }, &v);
+}
+
+// ---- linear propagators ------------------------------------------------------------------------
+/// `mal.lin <rel> <k> <nc> c* <nv> (lo hi)*`
+pub fn do_lin(out: &mut Out, rel: &str, k: i32, cs: &[i32], doms: &[(i32, i32)]) {
+    use selen::constraints::props::Propagators;
+    let line = format!(
+        "mal.lin {rel} {k} {} {} {} {}",
+        cs.len(),
+        cs.iter().map(|c| c.to_string()).collect::<Vec<_>>().join(" "),
+        doms.len(),
+        doms.iter().map(|d| format!("{} {}", d.0, d.1)).collect::<Vec<_>>().join(" ")
+    );
+    let line = line.split_whitespace().collect::<Vec<_>>().join(" ");
+    let r = guarded(|| {
+        let mut vars = Vars::new();
+        let ids: Vec<VarId> = doms.iter().map(|d| vars.new_var_with_values((d.0..=d.1).collect())).collect();
+        let mut props = Propagators::default();
+        for _ in &ids {
+            props.on_new_var();
+        }
+        let p = match rel {
+            "eq" => props.int_lin_eq(cs.to_vec(), ids.clone(), k),
+            "le" => props.int_lin_le(cs.to_vec(), ids.clone(), k),
+            _ => props.int_lin_ne(cs.to_vec(), ids.clone(), k),
+        };
+        let mut events = Vec::new();
+        let res = {
+            let mut ctx = Context::verif_new(&mut vars, &mut events);
+            props.get_state(p).as_ref().prune(&mut ctx)
+        };
+        match res {
+            None => "none".to_string(),
+            Some(()) => ids
+                .iter()
+                .map(|id| match &vars[*id] {
+                    selen::variables::Var::VarI(s) => if s.is_empty() { "empty".into() } else { format!("{}..{}", s.min(), s.max()) },
+                    _ => "?".into(),
+                })
+                .collect::<Vec<_>>()
+                .join("|"),
+        }
+    });
+    out.stat(&format!("lin.{rel}"));
+    match r {
+        Some(s) => {
+            out.emit(line, format!("ok {s}"));
+        }
+        None => {
+            let (loc, msg) = take_panic();
+            let l = out.emit(line, "panic");
+            out.stat("lin.panic");
+            if cs.len() < doms.len() {
+                // precondition of the (doc-hidden) constructor violated on purpose: not a finding here,
+                // the public route to it is the reified helper (`lin-reif-length-unchecked`)
+                out.stat("lin.panic.short-coefficients");
+                return;
+            }
+            let mut a: Vec<i64> = cs.iter().map(|c| *c as i64).collect();
+            a.push(k as i64);
+            for d in doms {
+                a.push(d.0 as i64);
+                a.push(d.1 as i64);
+            }
+            // the weighted sum an in-range row can reach
+            let w: i64 = cs.iter().zip(doms).map(|(c, d)| (*c as i64).abs().saturating_mul((d.0 as i64).abs().max((d.1 as i64).abs()))).fold(0i64, |x, y| x.saturating_add(y));
+            a.push(w);
+            let tag = direct_tag(&a, &msg, rel);
+            out.fail(l, "C17", &tag, format!("int_lin_{rel} {cs:?} over {doms:?} = {k} panicked at {loc}: {}", msg.chars().take(80).collect::<String>()));
+        }
+    }
+}
+
+fn lin_case(out: &mut Out, r: &mut Rng) {
+    let extreme = r.chance(1, 2);
+    let nv = r.range(0, 3) as usize;
+    let nc = if r.chance(1, 10) { r.below(4) as usize } else { nv };
+    let coef = |r: &mut Rng| -> i32 {
+        if extreme && r.chance(1, 3) {
+            *r.pick(&[i32::MAX, i32::MIN, i32::MIN + 1, -1, 1, 1 << 30, 65536, -65536, 46341, -46341, 1 << 20])
+        } else if r.chance(1, 6) {
+            0
+        } else {
+            r.range(-4, 4) as i32
+        }
+    };
+    let cs: Vec<i32> = (0..nc).map(|_| coef(r)).collect();
+    let doms: Vec<(i32, i32)> = (0..nv)
+        .map(|_| {
+            let lo = if extreme && r.chance(1, 3) { *r.pick(&OFFS) } else { r.range(-6, 6) as i32 };
+            (lo, lo.saturating_add(r.range(0, 4) as i32))
+        })
+        .collect();
+    let k = if extreme && r.chance(1, 3) { *r.pick(&[i32::MAX, i32::MIN, i32::MIN + 1, 1 << 30, -(1 << 30)]) } else { r.range(-8, 8) as i32 };
+    let rel = *r.pick(&["eq", "le", "ne"]);
+    do_lin(out, rel, k, &cs, &doms);
+}
+
+// ------------------------------------------------------------------------------------------------
+// suite entry points
+// ------------------------------------------------------------------------------------------------
+pub fn suite(out: &mut Out, seed: u64, count: u64, args: &[String]) {
+    let only = args.iter().position(|a| a == "--only").and_then(|i| args.get(i + 1)).cloned().unwrap_or_default();
+    let geta = |n: &str, d: u64| -> u64 { args.iter().position(|a| a == n).and_then(|i| args.get(i + 1)).and_then(|v| v.parse().ok()).unwrap_or(d) };
+    let (from, to) = (geta("--from", 0), geta("--to", u64::MAX));
+    let child = geta("--child", 0) >= 1;
+    let child_fixed = geta("--child", 0) == 2;
+    CHILD_PROGRESS.store(child, std::sync::atomic::Ordering::Relaxed);
+    install_hook();
+    // watchdog: an in-process case that does not come back is reported instead of hanging the run
+    let progress = std::sync::Arc::new(std::sync::atomic::AtomicU64::new(0));
+    if !child {
+        let p = progress.clone();
+        std::thread::spawn(move || {
+            let mut last = (u64::MAX, std::time::Instant::now());
+            loop {
+                std::thread::sleep(std::time::Duration::from_millis(500));
+                let cur = p.load(std::sync::atomic::Ordering::Relaxed);
+                if cur != last.0 {
+                    last = (cur, std::time::Instant::now());
+                } else if last.1.elapsed().as_secs() > 30 {
+                    eprintln!("malformed: case index {cur} did not return within 30 s (in-process); aborting the run");
+                    std::process::exit(3);
+                }
+            }
+        });
+    }
+    let mut root = Rng::new(seed ^ STREAM);
+    if only.is_empty() || only == "api" || only == "fixed" {
+        // the fixed reproducers first
+        let mut r0 = Rng::new(seed);
+        for k in 0..fixed_cases().len() as u64 {
+            if child_fixed && k == from {
+                api_case(out, &format!("f{k}"), &mut r0, false, &Iso { child: true, fixed: true, seed, count, index: k });
+            } else if !child && from == 0 {
+                api_case(out, &format!("f{k}"), &mut r0, false, &Iso { child: false, fixed: true, seed, count, index: k });
+            }
+        }
+    }
+    for i in 0..count {
+        let mut r = root.fork();
+        let extreme = i % 3 == 2;
+        if i < from || i > to || child_fixed {
+            continue;
+        }
+        progress.store(i, std::sync::atomic::Ordering::Relaxed);
+        if only.is_empty() || only == "api" {
+            api_case(out, &format!("m{i}"), &mut r, extreme, &Iso { child, fixed: false, seed, count, index: i });
+        }
+        if !child && (only.is_empty() || only == "direct") {
+            let mut rd = r.fork();
+            if i % 2 == 0 {
+                out.case(&format!("d{i}"));
+                ss_case(out, &mut rd);
+            }
+            if i % 2 == 1 {
+                out.case(&format!("w{i}"));
+                for _ in 0..3 {
+                    view_case(out, &mut rd);
+                }
+                for _ in 0..2 {
+                    lin_case(out, &mut rd);
+                }
+            }
+        }
+        if !child && (only.is_empty() || only == "v") && i % 4 == 0 {
+            out.case(&format!("v{i}"));
+            let mut rv = r.fork();
+            for v in v_cases(&mut rv) {
+                let call = *rv.pick(&VC::ALL);
+                do_v(out, &v, call);
+            }
+        }
+    }
+    remove_hook();
+    if child {
+        // hand the transcript of the single case to the parent and leave without writing files
+        let mut s = String::new();
+        for (i, l) in out.ops.iter().enumerate() {
+            s.push_str(&format!("L\t{l}\n"));
+            for (ln, _p, t, d) in &out.oracle {
+                if *ln == i {
+                    s.push_str(&format!("F\t{t}\t{}\n", d.replace('\n', " ")));
+                }
+            }
+        }
+        for (k, v) in &out.stats {
+            for _ in 0..*v {
+                s.push_str(&format!("S\t{k}\n"));
+            }
+        }
+        print!("{s}");
+        use std::io::Write;
+        let _ = std::io::stdout().flush();
+        std::process::exit(0);
+    }
+}
+
+static REPLAY_SS: Mutex<Option<SsCase>> = Mutex::new(None);
+
+/// replay of one protocol line of this suite inside the current case (`mal.v`, `mal.ss`, `mal.view`,
+/// `mal.lin`; the `#mal` transcript lines are oracle-only and are not replayed)
+pub fn replay_line(out: &mut Out, line: &str) {
+    let ws: Vec<&str> = line.split_whitespace().collect();
+    install_hook();
+    match ws.first().copied() {
+        Some("mal.v") if ws.len() >= 3 => {
+            let call = VC::parse(ws[ws.len() - 1]);
+            let v = V::parse(&ws[1..ws.len() - 1]);
+            if let (Some(v), Some(c)) = (v, call) {
+                do_v(out, &v, c);
+            }
+        }
+        Some("mal.ss") if ws.len() >= 2 => {
+            let mut g = REPLAY_SS.lock().unwrap();
+            if matches!(ws[1], "new" | "unchecked" | "values") || g.is_none() {
+                *g = Some(SsCase { s: None, dead: false });
+            }
+            let op = ws[1..].join(" ");
+            do_ss(g.as_mut().unwrap(), out, &op);
+        }
+        Some("mal.view") if ws.len() >= 6 => {
+            let p = |k: usize| ws[k].parse::<i32>().ok();
+            if let (Some(lo), Some(hi), Some(m), Some((v, rest))) = (p(1), p(2), p(4), crate::core::parse_view(&ws[5..])) {
+                if rest.is_empty() {
+                    do_view(out, lo, hi, ws[3], m, &v);
+                }
+            }
+        }
+        Some("mal.lin") if ws.len() >= 4 => {
+            let ints: Option<Vec<i64>> = ws[2..].iter().map(|w| w.parse::<i64>().ok()).collect();
+            if let Some(a) = ints {
+                // k nc c* nv (lo hi)*
+                let nc = a[1] as usize;
+                if a.len() >= 3 + nc {
+                    let cs: Vec<i32> = a[2..2 + nc].iter().map(|x| *x as i32).collect();
+                    let nv = a[2 + nc] as usize;
+                    let rest = &a[3 + nc..];
+                    if rest.len() == 2 * nv {
+                        let doms: Vec<(i32, i32)> = (0..nv).map(|i| (rest[2 * i] as i32, rest[2 * i + 1] as i32)).collect();
+                        do_lin(out, ws[1], a[0] as i32, &cs, &doms);
+                    }
+                }
+            }
+        }
+        _ => {}
+    }
+    remove_hook();
+}
